@@ -12,1145 +12,2685 @@ Definition show_fres (r : fres) : string :=
   end.
 Definition check (rs : list rune) : string := digest (show_fres (format_res rs)).
 Definition full (rs : list rune) : string := show_fres (format_res rs).
-Eval vm_compute in ("<<<M121>>>" ++ check (runes_of_ascii "packet body{ Z9_ {
-    string leftPad `crlf
-line` , msg_type { // c
-uint64 tag  `{ , }` ,repeat f64 BodyLength
-,} , i8i8 BodyLength , }
-    // " ++ [128512]%N ++ runes_of_ascii " emoji
-    , falsey //
-,@leftPad ( // c
-'0') @lengthOf(
-    falsey	)
-    f32 Z9_
-@lengthOf(  o )
-    , @calculatedFrom(
-""" ++ [233]%N ++ runes_of_ascii "t" ++ [233]%N ++ runes_of_ascii """ )
-repeat string //x
-As
-,@lengthOf(falsey) @calculatedFrom( ""a	b"")
-    @tag( 3
-) repeat Header{
-Packet@lengthOf(
-    crc )
-    , repeat int16
-As
-, repeat uint16 // packet A { u8 x, }
-f32a , } , @lengthOf(float )@tag(
-    3 )
-    // a // b
-    @tag(// " ++ [128512]%N ++ runes_of_ascii " emoji
-10 )	roots
-BodyLength , string tag //	t
-,
-} MetaData int {  char[ 1 ] As
-, Packet u128 , // c
-pack
-    x_y_z
-`{ , }` ,
-    string_
-len ,
-zchar[
-0
-] Header , string
-    zchar `
-`, } root packet uint8x { char[] u128
-, }root packet crc { repeat trueish { f32 lengthOf `say ""hi""` , i8 crc	@calculatedFrom( """ ++ [233]%N ++ runes_of_ascii "t" ++ [233]%N ++ runes_of_ascii """) , match Z9_ as repeatCount
-    {
-    [ 3 ] :  string_
-, ""it's""  : A 0 :	u8x 65535 : u128  } , // trailing space 
-i32 x , },char[]
-    pack `// not a comment` , char[]leftPad @calculatedFrom("""" ) `
-` ,
-string o `doc` ,}
-    packet// " ++ [27880; 37322]%N ++ runes_of_ascii "
-rootA  { // " ++ [128512]%N ++ runes_of_ascii " emoji
-repeat x_y_z{
-    zchar[
-//	t
-//	t
-3 ]
-    stringy
-`crlf
-line`,  BodyLength
-    BodyLength
-    `` , lengthOf
-@calculatedFrom(
-""x y""
-) , // c
-float64
-    // " ++ [27880; 37322]%N ++ runes_of_ascii "
-    Logon	@calculatedFrom(
-""a\\"" ) ,
-} , @lengthOf( Pad
-)// `tick` ""quote"" 'q'
-@calculatedFrom( ""abc"") @tag(4294967296 )uint8x @lengthOf( // packet A { u8 x, }
-crc )  ,
-@calculatedFrom( //	t
-""" ++ [233]%N ++ runes_of_ascii "t" ++ [233]%N ++ runes_of_ascii """  )
-string u
-@lengthOf(
-uint8x)
-    `// not a comment` ,u
-    metadata`u8 x,`
-,
-    }
-")).
-Eval vm_compute in ("<<<M1745>>>" ++ check (runes_of_ascii "  packet
-chars{
-int32	trueish	,match Pad 
+Eval vm_compute in ("<<<M1205>>>" ++ check (runes_of_ascii "packet  options1 { i8 leftPad
+// c
+// " ++ [128512]%N ++ runes_of_ascii " emoji
+`say ""hi""` , @tag(
+4294967296 )
+repeat  zchar[7]Pad, @leftPad ('\x00' ) As
+`u8 x,` ,
+falsey @calculatedFrom(""x y"" )  ,
+// `tick` ""quote"" 'q'
+//x
+pack `say ""hi""` , x { match Header
 as
-repeatCount
-	{[
-
-0 ] : // " ++ [27880; 37322]%N ++ runes_of_ascii "
-	Pad
-
-,/// triple
-	3  :Foo
-
-    ,""abc""
-
+charz // trailing space 
+{ 00
+// `tick` ""quote"" 'q'
+// " ++ [128512]%N ++ runes_of_ascii " emoji
+: a1
+    , }	,
+repeat char[
+    // packet A { u8 x, }
+    0123456789
+    ]
+    rootA `line1
+line2` ,
+    uint64
+tag `" ++ [28040; 24687; 31867; 22411]%N ++ runes_of_ascii "`,
+f32 Z9_ , // c
+},
+    @leftPad
+(
+)
+@leftPad (
+'\x00'
+) float32 tag // @lengthOf(
+,
+    repeat
+f32 T//x
+`" ++ [28040; 24687; 31867; 22411]%N ++ runes_of_ascii "` , @lengthOf( chars )@calculatedFrom(""" ++ [128512]%N ++ runes_of_ascii """ )
+    @calculatedFrom( ""a	b""
+) match calculatedFrom as packetx{""\n"" :
+    trueish , [ """" , 007 // " ++ [128512]%N ++ runes_of_ascii " emoji
+]// trailing space 
+: packetx,""// no comment""
+    : packetx
+[ 7
+, 0123456789
+] : pack """ ++ [233]%N ++ runes_of_ascii "t" ++ [233]%N ++ runes_of_ascii """: Packet // trailing space 
+} // `tick` ""quote"" 'q'
+,@calculatedFrom( ""\n""
+) //x
+repeat u16 As, } root packet
+uint8x {
+    @lengthOf(stringy )	string
+a1 ,
+// a // b
+// 50% %s
+int16 i64_ `" ++ [28040; 24687; 31867; 22411]%N ++ runes_of_ascii "`
+, int16 Logon @calculatedFrom(
+""// no comment"" // packet A { u8 x, }
+) , MetaDataX MetaDataX
+`it's` , i64_ , match matchKey as
+zchar
+    {""1""
+    : As [
+0 ]
 :
-    i64_	//	t
-
-  ,
-[ 255
-
-    ,
-    3
-] : 
-Packet	,	[
-
-0123456789// @lengthOf(
-	, 
-""// no comment""
-	] :
-Packet
-,}
-	,  // c
-    match
-a1
-as
-
-u{  [// `tick` ""quote"" 'q'
-	  ""abc"" , """ ++ [233]%N ++ runes_of_ascii "t" ++ [233]%N ++ runes_of_ascii """ 
-, """" ,
-
-    0  ,  
-  //	t
-	255  ]
-: u 
-	    //	t
-	,
-    }
-    ,
-@tag(  10
+    f32a , [ ""x y"" ]: body,	""it's"" :  _x
+    , /// triple
+[ """ ++ [28040; 24687]%N ++ runes_of_ascii """	,
+007 ]
+: matchKey	""x y""  : x_y_z ,} ,@calculatedFrom( // " ++ [128512]%N ++ runes_of_ascii " emoji
+""" ++ [128512]%N ++ runes_of_ascii """
 )
-match a1
-as 
-a1
-{
-    [
-42 ]	//
-	:
-packetx ,
-}
-    ,
-
-    @lengthOf( As)
-    repeat char[  0123456789 ]  repeatCount`tab	here`
-
+    int64 o
+@lengthOf( body ), // `tick` ""quote"" 'q'
+asx { chars
+`say ""hi""`//x
 ,
-    string
-    o
-
-    `crlf
-line` , 
-//x
-
-// a // b
-
-As
-	@lengthOf(	//x
-      i8i8
-)
-	,
-string
-    repeatCount @lengthOf( u128 
-)
-
-    ,
-
-//
-  @tag(
-
-00	)	repeat pack
-	Logon
-
-    ,}root  packet Foo
+i64 falsey , i8 zchar
+`two words`,
+char[ 255
+]tag @calculatedFrom(
+""""
+) , } , char[] Pad@lengthOf(
+    charz )`
+` ,
+@tag( 007 )@tag( 255 ) repeat u64 x ,} packet metadata
     {
-
-@tag( 1 )  char[// packet A { u8 x, }
-		3
-
-] i64_
-,
-
-f32
-
-    // packet A { u8 x, }
-	// " ++ [27880; 37322]%N ++ runes_of_ascii "
-    charz
-,// `tick` ""quote"" 'q'
-
-i8
-    zchar
-	@lengthOf( // `tick` ""quote"" 'q'
-
-MetaDataX	) /// triple
-  	,  @tag(  007
-)  u8 _x, 
-@tag( 
-255
-) msg_type@calculatedFrom( ""`tick`""
-)  `doc`,
-    @calculatedFrom(  """ ++ [233]%N ++ runes_of_ascii "t" ++ [233]%N ++ runes_of_ascii """
-
-    )match  len
-    as 	 /// triple
-		As
-
-    {""// no comment""
-
-    :falsey 
-,
-
-    }  ,
-    }	MetaData leftPad { x
-
-i8i8 ,  }  //
-")).
-Eval vm_compute in ("<<<M139>>>" ++ check (runes_of_ascii "
-packet len{ repeat i8i8 `u8 x,`
+    match BodyLength
+as u128 { 4294967296
+:trueish
     ,
-// @lengthOf(
-// a // b
-repeat char[ // c
-0123456789
-//x
-//
-]	a1 ,
-@rightPad ( )
-// trailing space 
-// " ++ [27880; 37322]%N ++ runes_of_ascii "
-match options1 as
-    string_
-{ 007 :uint8x  [
-""it's"", // c
-""\n"" ] : body } , zchar[ 1
-] float @lengthOf( Header) , @lengthOf( rootA )  @tag(
-    // packet A { u8 x, }
-    00 ) @lengthOf( metadata ) repeat
+    10 :
+    _x ""a\""b"" : int, 007 : Logon	, """ ++ [233]%N ++ runes_of_ascii "t" ++ [233]%N ++ runes_of_ascii """: Z9_
+, // trailing space 
+[42
     //x
-    metadata { int16
-    // " ++ [27880; 37322]%N ++ runes_of_ascii "
-    i64_
-    ,} ,
-i64_ , zchar[ 0123456789 ] lengthOf @calculatedFrom(""it's"" ) ,  } root
-    packet
-f32a { @leftPad
-    ( '0' ) @leftPad // " ++ [128512]%N ++ runes_of_ascii " emoji
-( '\x00' ) i64_`tab	here`
-,repeat x Packet ,char[ 42 ] Foo @calculatedFrom( ""abc"" ) , int16  uint8x @lengthOf( MetaDataX ) // @lengthOf(
-`a\`
-, // " ++ [27880; 37322]%N ++ runes_of_ascii "
-i8 Header `
-` /// triple
-, repeat//
-Pad
-    A , char[3  ] _x , @calculatedFrom(// trailing space 
-""x y"")
-match MetaDataX	as As {
-//	t
-//x
-[	""a	b"", """ ++ [28040; 24687]%N ++ runes_of_ascii """
-]
-:	options1, [""" ++ [28040; 24687]%N ++ runes_of_ascii """ ,
-""it's""
-    , 3
-    , 7
-,
-42 ,""abc""	] :	_x , """"
-    //	t
-    :
-charz ,
-""a\\"" :// trailing space 
-a1
-, //
-} , @tag( 7 ) u8 float ,
+    , 00 ]:
+    // packet A { u8 x, }
+    u128 }	, zchar[0123456789 ] chars `a\` ,
+    match // a // b
+trueish as tag  { // @lengthOf(
+0  :
+zchar ,
+    // @lengthOf(
     }
+, zchar[ 4294967296 ]  lengthOf, asx @lengthOf( tag ) //x
+,char[ 65535
+] u
+@lengthOf(x_y_z// " ++ [128512]%N ++ runes_of_ascii " emoji
+)
+`two words` // 50% %s
+,
+    _x
+@calculatedFrom( """ ++ [233]%N ++ runes_of_ascii "t" ++ [233]%N ++ runes_of_ascii """) `{ , }` ,
+@tag( 3 //x
+) zchar[255 ] Header`` , float32 crc , Z9_ @lengthOf(body	) `two words`,
+    }  root packet
+    f32a{	@rightPad (
+    )
+    string u8x `say ""hi""` , } options  { }
 ")).
-Eval vm_compute in ("<<<M1776>>>" ++ check (runes_of_ascii "  packet
-chars{} // c
-	  packet
-    len{ repeat
-char[]  Foo
-    ,	@rightPad (
-'0' ) zchar[ 007
-] 	 /// triple
-  a1`say ""hi""` ,
+Eval vm_compute in ("<<<M3819>>>" ++ check (runes_of_ascii "
+packet 
+BodyLength {
+repeat char[65535	]
 
-repeat BodyLength
+repeatCount , 
+}packet  T{
 
-    leftPad 
+    @lengthOf(
+matchKey
+)
+
+f64
+float 
+@lengthOf(	int ) , repeat
+
+    u16 	 //x
+    	Z9_ , repeat
+char[0
+
+    ] falsey
+, }
+root
+
+packet 
+trueish  {
+
+repeat
+
+    uint64
+i8i8
+`" ++ [28040; 24687; 31867; 22411]%N ++ runes_of_ascii "`	// trailing space 
+  	,
+@tag(
+	10
+
+    )
+        /// triple
+  zchar[ 
+10
+
+    ]  uint8x	,@calculatedFrom( 	 //
+
+""{,}""
+
+) 
+@tag( 1
+)@calculatedFrom(""CRC32""
+
+    )
+
+match 	 // trailing space 
+Packet as matchKey
+
+    {
+    0
+	:
+tag ,
+
+    65535 :
+options1 ,
+
+    }
+    ,repeat u
+
+{
+	calculatedFrom 
+@calculatedFrom(	//x
+	""\n""
+
+) 
+        // " ++ [27880; 37322]%N ++ runes_of_ascii "
+	// " ++ [27880; 37322]%N ++ runes_of_ascii "
+	`100% of %d` 
+,
+
+string x
+@lengthOf(
+	zchar
+)
+    `100% of %d`
+, match
+
+    MetaDataX	as 
+Logon
+    {
+0
+    :  /// triple
+  T ,
+	42	: 	 // @lengthOf(
+
+A
+    3	: 
+rootA 
+65535 
+:x_y_z,
+
+} 
+,	char[]
+packetx @calculatedFrom(
+
+    """ ++ [233]%N ++ runes_of_ascii "t" ++ [233]%N ++ runes_of_ascii """ 
+)
+,
+
+    }
+
+,
+x  // " ++ [27880; 37322]%N ++ runes_of_ascii "
+    `
+` ,	repeat 	 // 50% %s
+Pad	{ 
+  // 50% %s
+// packet A { u8 x, }
+zchar[1 ]
+A	@lengthOf(
+Z9_
+
+    ) ,
+    metadata	{
+repeat packetx
+a1
+
+,
+    u16
+    // a // b
+    // packet A { u8 x, }
+	  string_//	t
+    `tab	here`  ,Foo `u8 x,`
+,
+	}
+    ,/// triple
+
+match  i64_ as
+    msg_type {1 :
+// trailing space 
+	  //
+		msg_type 
+,	3
+
+:rootA 
+,
+
+    65535 :
+As ,
+    }
+	,	string
+
+Z9_@lengthOf(	// c
+
+MetaDataX)
+,
+	} ,
+MetaDataX
+
+{f64
+
+packetx , repeat char
+Z9_	,
+
+    u8x i8i8 , 
+}	,
+
+    uint8 i64_
+
+    `// not a comment`,
+    @lengthOf(_x	)
+BodyLength, 
+stringy 
+{  repeat
+    zchar[ 0123456789
+]	i8i8// " ++ [128512]%N ++ runes_of_ascii " emoji
+  , },
+}
+root
+packet float// `tick` ""quote"" 'q'
+    { 	 // packet A { u8 x, }
+@lengthOf(
+_x ) o	@calculatedFrom( ""{,}""
+    ) 
+	    //
+
+//x
+`line1
+line2` ,
+
+    } ")).
+Eval vm_compute in ("<<<M727>>>" ++ check (runes_of_ascii "root packet
+    /// triple
+    tag { repeat uint8x {
+    char[]
+Header @lengthOf( zchar
+)
+`crlf
+line`
+    // `tick` ""quote"" 'q'
+    , } ,  repeat
+    i64 len , repeat leftPad
+    {zchar[7 ] // trailing space 
+As ,repeat char[] msg_type
+,
+}
+// c
+// `tick` ""quote"" 'q'
+,match o
+as leftPad { [ """ ++ [233]%N ++ runes_of_ascii "t" ++ [233]%N ++ runes_of_ascii """]
+    :len
+    ,00
+:Packet ""`tick`"" : charz
+,
+3 :
+    // " ++ [27880; 37322]%N ++ runes_of_ascii "
+    Packet
+    , //
+""1"":
+    a1
+    /// triple
+    , }
+,
+    //
+    match uint8x as i64_ { 3 :// a // b
+o
+    ,// packet A { u8 x, }
+}
+,string roots ,
+/// triple
+// `tick` ""quote"" 'q'
+@rightPad (	' ' )
+falsey @lengthOf(  T
+    ) ,
+} options {
+i64_ = 3 }root packet Header {
+len{ T
+@calculatedFrom( // " ++ [27880; 37322]%N ++ runes_of_ascii "
+""a	b""
+    ) , string x
+@lengthOf( Header )  ``
+, }  ,calculatedFrom
+@calculatedFrom(""" ++ [233]%N ++ runes_of_ascii "t" ++ [233]%N ++ runes_of_ascii """ ) `a\`  ,
+@leftPad ( )
+    //
+    @tag( 3
+) calculatedFrom { i32
+repeatCount ,
+    } , @calculatedFrom( """ ++ [233]%N ++ runes_of_ascii "t" ++ [233]%N ++ runes_of_ascii """ )zchar[ 65535] lengthOf , i8
+len
+@lengthOf( x_y_z
+    ) , repeat
+i8 trueish ,
+    tag,//
+u8 roots
+    @calculatedFrom(// " ++ [27880; 37322]%N ++ runes_of_ascii "
+""" ++ [128512]%N ++ runes_of_ascii """ ) ,
+pack  stringy `
+`
+    // @lengthOf(
+    ,@calculatedFrom( ""x y"" ) A , }
+packet repeatCount
+{ repeat len
+    {
+    repeat zchar[ 00
+    //
+    ] BodyLength,
+    char[]  a1
+    `it's`// `tick` ""quote"" 'q'
+,repeat
+    char[] Logon ,
+} , msg_type {matchKey // packet A { u8 x, }
+, },  @calculatedFrom(""a	b""
+    )
+repeat
+asx
+rootA , @calculatedFrom(
+""" ++ [128512]%N ++ runes_of_ascii """	) @calculatedFrom( """ ++ [233]%N ++ runes_of_ascii "t" ++ [233]%N ++ runes_of_ascii """ ) repeat string repeatCount`two words` ,u8 stringy ,zchar[ 00] _x
+    `tab	here`
+, //x
+}
+")).
+Eval vm_compute in ("<<<M3975>>>" ++ check (runes_of_ascii "MetaData 
+    // a // b
+
+	falsey
+{
+    // `tick` ""quote"" 'q'
+      zchar[ 
+7
+	] BodyLength
+
+`100% of %d` 
+
+// packet A { u8 x, }
+  , 
+}  MetaData
+
+    options1
+{
+	stringy options1
+
+, 
+u16
+float 
+,
+    f64
+
+leftPad	,	} 
+packet 
+crc
+{ @calculatedFrom( 
+""a\""b""
+	)
+
+repeat a1
+{zchar[  007  ]x
+	@lengthOf(
+    rootA ),
+}
 , 
 }
+    packet float  { string falsey  ,
 
-    root
-    packet 
-u8x 
-{
-f64 lengthOf	@calculatedFrom(
-""CRC32""	)
-,string
+char[ 255 ]
+    BodyLength
+	,
+zchar[
+10]
 
-    zchar
-@lengthOf(
-int
+    Logon ,
+string_ { u16	// 50% %s
+    Foo @lengthOf(
+	u  // " ++ [128512]%N ++ runes_of_ascii " emoji
+)
+,zchar[ 
+1  // a // b
+    ]
+A	// packet A { u8 x, }
+``
+    ,	int16 Logon 
+`two words`	, }
 
+,@rightPad
+	(
+'\x00' ) i8
+    metadata
+	@calculatedFrom(""a	b""
+	) 
+`crlf
+line`
+,
+	} packet
+
+falsey	{
+
+    //	t
+Header
+    _x
+,string A 
+@lengthOf(	Z9_
+
+) `
+`,	match zchar as  stringy
+    {
+	0: 
+        /// triple
+_x
+
+    , }
+	, @leftPad
+
+(  '\x00' )A
+
+    Header
+`doc`
+
+    ,
+
+    @calculatedFrom(  // " ++ [128512]%N ++ runes_of_ascii " emoji
+""// no comment""
+
+    )
+    @calculatedFrom(	""abc""  )
+@calculatedFrom(""a\""b""
+)	match
+	MetaDataX as
+    A
+	{ 
+      // c
+    ""a\\""
+	:
+len
+	,}  //x
+    , 
+	    // @lengthOf(
+
+	// `tick` ""quote"" 'q'
+msg_type matchKey
+`// not a comment` 
+
+    /// triple
+	// `tick` ""quote"" 'q'
+
+, 
+BodyLength  ,@lengthOf(
+roots) repeat
+    u16 lengthOf `crlf
+line`
+
+    ,  Header@calculatedFrom( ""a	b""
+	)
+`crlf
+line` ,	}
+")).
+Eval vm_compute in ("<<<M1229>>>" ++ check (runes_of_ascii "
+MetaData
+    // a // b
+    falsey {
+    // `tick` ""quote"" 'q'
+    zchar[7 ] BodyLength `100% of %d`
+    // packet A { u8 x, }
+    ,
+    } MetaData options1 { stringy options1 ,u16 float
+    , f64 leftPad , } packet crc { @calculatedFrom(	""a\""b"" )
+repeat a1 { zchar[
+    007
+]	x @lengthOf(
+    rootA ) , }	,  }
+    packet
+    float{  string falsey , char[ 255	]  BodyLength , zchar[10
+] Logon
+    , string_
+{u16// 50% %s
+Foo @lengthOf(u // " ++ [128512]%N ++ runes_of_ascii " emoji
+)
+,
+    zchar[
+1 // a // b
+] A// packet A { u8 x, }
+`` , int16 Logon `two words` , }  ,
+    @rightPad ( '\x00') i8
+metadata @calculatedFrom( ""a	b"" ) `crlf
+line` ,} packet falsey {
+    //	t
+    Header _x , string
+    A @lengthOf( Z9_ )`
+`  ,
+    match zchar
+    as
+    stringy { 0 :
+    /// triple
+    _x ,
+} , @leftPad
+( '\x00' ) A Header
+    `doc` , @calculatedFrom(// " ++ [128512]%N ++ runes_of_ascii " emoji
+""// no comment"" ) @calculatedFrom( ""abc"" ) @calculatedFrom(
+    ""a\""b"")match MetaDataX as
+    A {
+    // c
+    ""a\\"" : len , }//x
+,
+// @lengthOf(
+// `tick` ""quote"" 'q'
+msg_type
+matchKey `// not a comment`
+/// triple
+// `tick` ""quote"" 'q'
+, BodyLength, @lengthOf( roots
+    ) repeat u16
+    lengthOf
+`crlf
+line`,
+    Header@calculatedFrom( ""a	b""
 ) `crlf
 line`
     ,
-int  calculatedFrom ,@lengthOf(
-
-    As )
-    match	falsey as  asx { 65535
-:
-_x[ 1 
-]
-: u
-	007  :
-
-uint8x 00
-: f32a
-    ,  """ ++ [233]%N ++ runes_of_ascii "t" ++ [233]%N ++ runes_of_ascii """
-    :
-Packet,
-    [ 42
-	, ""a\""b""
-]	: len 
+} 	 ")).
+Eval vm_compute in ("<<<M4254>>>" ++ check (runes_of_ascii "packet chars {
+    zchar[1] u8x @lengthOf(uint8x),
+    @calculatedFrom(""{,}"")
+    roots `say ""hi""`,
+    int8 asx `{ , }`,
+    // `tick` ""quote"" 'q'
+    // trailing space 
+    @calculatedFrom(""a\""b"")
     //x
-	, }
+    i8 _x `// not a comment`,
+}
+
+root packet metadata {
+    //x
+    zchar[3] u128 @calculatedFrom(""a\""b"") `two words`,
+    @rightPad(' ')
+    @calculatedFrom(""// no comment"")
+    @lengthOf(Logon)
+    char[] Packet,
+    @rightPad('0')
+    trueish matchKey `line1
+    line2`,
+    @tag(65535)
+    @lengthOf(f32a)
+    @tag(0123456789)
+    match zchar as falsey {
+        10 : len,
+        [
+            """ ++ [128512]%N ++ runes_of_ascii """, ""a	b"", ""CRC32"", ""x y"", 3,
+            7, ""\" ++ [233]%N ++ runes_of_ascii """, 7
+        ] : options1,
+        ""\n"" : Packet,
+        0 : float,
+        """ ++ [28040; 24687]%N ++ runes_of_ascii """ : zchar,
+        4294967296 : Packet,
+    },
+    zchar[0123456789] lengthOf,
+    zchar {
+        zchar[0] Z9_,
+    },
+    float `it's`,
+    repeat Z9_ {
+        repeat options1,
+        i32 As,
+        // @lengthOf(
+        string stringy @lengthOf(leftPad) `{ , }`,
+        //
+    },
+    char[10] x,
+}
+
+root packet As {
+    @tag(00)
+    // `tick` ""quote"" 'q'
+    repeat string i64_,
+}// " ++ [27880; 37322]%N)).
+Eval vm_compute in ("<<<M4483>>>" ++ check (runes_of_ascii "
+
+  // top
+options  // c0a
+    // c0b
+	{
+// c1
+  LittleEndian
+    =
+
+    false// c4
+    	; StringPrefixLenType 	 // c6
+  =u16  ; ArrayPrefixLenType 
+
+// c10
+
+	= // c11
+u32 // c12a
+	  // c12b
+    	;	// c13
+    FixedStringPadFromLeft	// c14a
+
+// c14b
+    =  true
+	;  // c17a
+
+// c17b
+
+  FixedStringPadChar  // c18a
+    	// c18b
+	=  // c19a
+    	// c19b
+'0' ;	// c21
+	} 	 // c22a
+  	// c22b
+packet	Quote 
+
+    // c24
+{ // c25
+  repeat 
+    // c26
+    InSide284 { 
+    // c28
+	repeat// c29a
+  // c29b
+  string 
+Acct
+	// c31
+  ,// c32a
+	// c32b
+int64	OrderId , // c35
+}  // c36
+, 
+      // c37
+uint8 
+    // c38
+	Px	// c39a
+  // c39b
+,  // c40
+	int32  // c41a
+  // c41b
+lastPx
+// c42
+
+	, uint8
+
+Flags
+        // c45
+,  // c46a
+  // c46b
+
+  }
+    packet Fill
+    {  // c50a
+	// c50b
+		f32 // c51a
+	// c51b
+  clOrdID	// c52
 ,
-@lengthOf(
-stringy
-	    // " ++ [128512]%N ++ runes_of_ascii " emoji
-		)	@calculatedFrom( 
-""1"" )
+// c53
+	  uint32 // c54
+  msgKind 
 
-repeat A
-{ char[]
+// c55
+	  ,  // c56a
+// c56b
 
-lengthOf	`it's`
-	, }
-	,_x	`" ++ [28040; 24687; 31867; 22411]%N ++ runes_of_ascii "`
+repeat	Quote	// c58
+,}  // c60
+  root 
+
+// c61
+packet
+Trade	// c63a
+	// c63b
+{ 	 // c64a
+
+// c64b
+	string 
+    // c65
+    Acct	// c66
+
+	,
+	}
+
+")).
+Eval vm_compute in ("<<<M4494>>>" ++ check (runes_of_ascii "
+//
+MetaData
+options1
+	{float32 calculatedFrom 
+, 	 //
+
+  string_
+calculatedFrom 
 ,
 
-    @leftPad ('0' )match Foo
-	as
-	crc	{ 
-10
+    char[]
 
-    : trueish 
-    // " ++ [27880; 37322]%N ++ runes_of_ascii "
-  //
-	,	42 : 	 // " ++ [128512]%N ++ runes_of_ascii " emoji
+msg_type
 
-	Pad
-
-    ,[ 4294967296
-    , ""// no comment""
-	, ""{,}""
-	] :  float , }
     ,
-    @lengthOf(  u8x
-	)
+	char[ 
+1  ] 
+trueish	,
+}
 
-a1 
-    // c
-  // trailing space 
-		@calculatedFrom(
-	""\" ++ [233]%N ++ runes_of_ascii """
-	) // c
-,}
-")).
-Eval vm_compute in ("<<<M1442>>>" ++ check (runes_of_ascii "options {
-    LittleEndian = true;
-    StringPrefixLenType = u64;
-    ArrayPrefixLenType = u8;
-    FixedStringPadChar = '0';
-}
-packet Reject {
-    i32 Ref,
-    repeat f64 OrderId,
-    repeat InNote12 {
-        u8 pad0,
-    },
-    @leftPad(' ') char[6] count,
-}
-packet Logout {
-    zchar[6] Tail,
-    repeat string venue,
-}
-packet Cancel {
-    u64 count,
-    repeat char[5] lastPx,
-    i64 Tail,
-    repeat InF140 {
-        repeat Logout,
-        repeat Reject,
-    },
-}
-root packet Trade {
-    repeat InMsgkind39 {
-        repeat Reject,
-        char[4] Px,
-    },
-    string Acct,
-    uint16 price,
-    f32 OrderId,
-    u16 x,
-    u16 clOrdID @lengthOf(Body),
-    match x as Body {
-        178 : Logout,
-        13 : Cancel,
-        174 : Reject,
-    },
-    u16 Flags @calculatedFrom(""CRC32""),
-}
-")).
-Eval vm_compute in ("<<<M1455>>>" ++ check (runes_of_ascii "  options
+MetaData tag
 
 { 
-StringPrefixLenType
-
-= u16
-
-    ; 
-ArrayPrefixLenType
-
-    =
-u32
-
-;	FixedStringPadFromLeft
-
-=
-	false ;
-    FixedStringPadChar =
-
-'0'
-    ; 
-} packet 
-Logout
-
-{
-f64
-    f1
-, i16  Note  , @rightPad	(
-	'\x00'
-    )char[ 11
-
-]
-Flags
-    ,
-
-    } 
-packet
-Cancel  {	float64	msgKind
-	,
-} packet
-
-    Reject{InQty43{float32 
-sym
-,
-
-    char[
-	10 ]
-Tail
-    , uint8
-    venue, uint16
-	f1  ,char[
-9
-
-]	Acct
-
-,  }  ,}
-packet
-
-Trade {
 char[]
-x
+
+stringy //	t
 ,
-	zchar[
-
-    6 ]
-	Note, repeat  Reject, }
-	root
-	packet
-Order
-{ Cancel
-
-    ,Logout, u64
-Acct
-
-,	u32 
-OrderId,  match
-	OrderId
-as 
-Body {[
-127 
-,	70
-	] : 
-Reject
-,
-177	:
-
-Trade
-
-, 58 
-:
-	Logout , 75:Cancel
-
-,
-}  ,
-u32	Tail@calculatedFrom( ""CRC32""
-
-)
-	,
-}
-")).
-Eval vm_compute in ("<<<M91>>>" ++ check (runes_of_ascii "options{
-T
-    =
-""x y"" ; } packet Z9_ { @leftPad
-    ('0' )
-int16
-Header @calculatedFrom(
-""1""
-    ) , options1 @lengthOf(
-    u8x )
-`// not a comment`
-,
-    @calculatedFrom(""// no comment"" ) @lengthOf(pack //	t
-) Header {
-i32 // trailing space 
-u
-`{ , }`
-, _x	, char[
-    7 ] crc @lengthOf(i64_)  ,
-    }
-// a // b
-// c
-, // `tick` ""quote"" 'q'
-float
-@lengthOf(
-roots ) `it's`  , } packet stringy { @rightPad( '\x00' //
-) @rightPad ( //
-'0' )
-// " ++ [27880; 37322]%N ++ runes_of_ascii "
-// packet A { u8 x, }
-@calculatedFrom( """ ++ [28040; 24687]%N ++ runes_of_ascii """ ) string a1 ,
-    f32
-uint8x // packet A { u8 x, }
-@lengthOf( charz
-// c
-// " ++ [128512]%N ++ runes_of_ascii " emoji
-) `two words`
-,
-int32
-x_y_z	@lengthOf( string_  ) //	t
-,
-}
-")).
-Eval vm_compute in ("<<<M1741>>>" ++ check (runes_of_ascii "// top
-root packet msg_type {
-    // c3
-    i64 options1,
-    // c6
-    @lengthOf(f32a)
-    // c9
-    repeat uint16 Foo,// c13a
-    // c13b
-    @calculatedFrom(""x y"")
-    // c16a
-    // c16b
-    repeat int64 pack,// c20a
-    // c20b
-    @leftPad(' ')
-    // c24a
-    // c24b
-    uint8 Foo,
-}
-
-// c28
-packet rootA {
-    // c31
-    f32a x `two words`,
-    char asx @lengthOf(falsey) `u8 x,`,// c42
-    @lengthOf(i64_)
-    // c45
-    uint16 chars,// c48
-    @tag(0)
-    string _x @calculatedFrom(""abc"") `// not a comment`,// c58
-}// c59a
-// c59b")).
-Eval vm_compute in ("<<<M1199>>>" ++ check (runes_of_ascii "// top
-packet // c0
-trueish
-    // c1
-{ repeat // c3
-u32
-    // c4
-MetaDataX // c5a
-  // c5b
-`doc` // c6a
-  // c6b
-, Header
-    // c8
+	} MetaData 
+chars
 {
-    // c9
-packetx // c10a
-  // c10b
-o `u8 x,` // c12a
-  // c12b
-, // c13a
-  // c13b
+uint32 
+        // trailing space 
+  //	t
+  	string_
+,
+    char[ 4294967296
+    ]	// 50% %s
+
+  a1 
+// " ++ [128512]%N ++ runes_of_ascii " emoji
+  // " ++ [27880; 37322]%N ++ runes_of_ascii "
+	`u8 x,`
+, 
+o
+
+    Logon
+`" ++ [233]%N ++ runes_of_ascii "`
+    , zchar[ 
+	//
+    /// triple
+    00 
+]
+	msg_type
+
+, repeatCount 
+matchKey  ,
+
 }
-    // c14
+    packet Foo
+
+{ 
+@tag(
+
+    7
+)
+
+@tag(
+
+    0)  roots
+	a1
+	,
+    repeat	// c
+    char[
+    00
+
+    ] asx 
+// `tick` ""quote"" 'q'
+	//
+
+,repeat  float
+
+, char[] falsey`crlf
+line`
+	,
+	i8 u128 
+, 
+int8 chars @calculatedFrom( ""// no comment"" 
+
+    // 50% %s
+	  )
+, }root
+packet
+    u128  { 
+@lengthOf(
+
+    Packet
+	)i16
+
+string_
+    @lengthOf(
+trueish )
+`// not a comment` ,
+    @leftPad 
+  /// triple
+  // `tick` ""quote"" 'q'
+
+()
+	u
+	,@rightPad(
+
+    ' '
+) 
+repeat /// triple
+    T, @lengthOf(
+	Z9_// c
+  	)
+	i32
+float,
+    }
+
+")).
+Eval vm_compute in ("<<<M756>>>" ++ check (runes_of_ascii "packet
+    packetx
+    { // trailing space 
+@leftPad
+    ( '0'
+)
+char[	65535 ]	body
+,u32  x, match asx as Packet { 4294967296 :
+Packet 3 : Pad
+3 : repeatCount ,""{,}""
+    : string_
+, } , BodyLength,
+match repeatCount
+as uint8x { 0 :
+    //	t
+    BodyLength
 ,
-    // c15
-@leftPad // c16
-( // c17a
-  // c17b
-'\x00' // c18a
-  // c18b
-) repeat char[
-    // c21
-0123456789
-    // c22
-] // c23
-repeatCount // c24
-,
-    // c25
-} // c26a
-  // c26b
-packet // c27
-Packet // c28
-{ // c29a
-  // c29b
-} ")).
-Eval vm_compute in ("<<<M1464>>>" ++ check (runes_of_ascii "options {
+    //x
+    ""a\""b""
+:
+repeatCount //	t
+, 7
+    :
+    // packet A { u8 x, }
+    len// `tick` ""quote"" 'q'
+, ""{,}"" :
+Pad , 7 : pack, } , @calculatedFrom(""" ++ [233]%N ++ runes_of_ascii "t" ++ [233]%N ++ runes_of_ascii """) repeat x_y_z { u16 len `a\`
+    , // @lengthOf(
+}
+    ,
+@tag( 007 ) @leftPad
+('0' ) match	options1 as float
+{[""CRC32""
+    , ""CRC32""]
+    : x_y_z //	t
+, 0 :
+    tag // c
+255	: Logon , 42:
+    string_  } ,//x
+repeat zchar[ 007
+    ]u
+,T{ char[]
+asx , match trueish  as  A { ""1"":
+    tag
+    , [ ""{,}""
+    , 7] : Logon, 4294967296: calculatedFrom	,""it's""
+    : uint8x
+, } ,
+} , } options	{
+u
+= ""packet"";	}
+    options { roots
+=  ""`tick`"" int	= //	t
+""""; Header= true; stringy
+    =
+' '// `tick` ""quote"" 'q'
+;
+    }
+")).
+Eval vm_compute in ("<<<M3535>>>" ++ check (runes_of_ascii "options {
     LittleEndian = false;
-    StringPrefixLenType = u8;
-    ArrayPrefixLenType = u16;
-    FixedStringPadFromLeft = false;
+    StringPrefixLenType = u16;
+    ArrayPrefixLenType = u8;
+    FixedStringPadFromLeft = true;
+    FixedStringPadChar = ' ';
 }
-packet Heartbeat {
-    u8 seqNo,
-    @rightPad('\x00') char[8] x,
+packet Logon {
 }
-root packet Trade {
-    repeat Heartbeat,
-    float32 OrderId,
-    i64 Acct,
-    u16 Qty,
-    u16 clOrdID,
-    match clOrdID as Body {
-        131 : Heartbeat,
+packet Reject {
+    InPx48 {
+        repeat string price,
+        u32 msgKind,
+        repeat InSide223 {
+            Logon,
+            repeat f64 Ref,
+            string tag7,
+        },
+        InClordid8 {
+            zchar[5] Qty,
+            u64 x,
+            repeat string lastPx,
+        },
     },
-    u16 sym @calculatedFrom(""CR\
+    Logon,
+    i16 lastPx,
+    repeat char[5] clOrdID,
+    zchar[2] Flags,
+    repeat string Side2,
+}
+root packet Order {
+    uint16 sym,
+    zchar[8] Side2,
+    repeat string clOrdID,
+    string tag7,
+    zchar[3] OrderId,
+    zchar[4] seqNo,
+    u32 f1,
+    u32 Acct @lengthOf(Body),
+    match f1 as Body {
+        58 : Reject,
+        180 : Logon,
+    },
+    u32 Px @calculatedFrom(""CR\
 C32""),
 }
 ")).
-Eval vm_compute in ("<<<M364>>>" ++ check (runes_of_ascii "packet string_{ repeat
-crc {
-As
-@calculatedFrom( ""// no comment"" ) `" ++ [28040; 24687; 31867; 22411]%N ++ runes_of_ascii "` // trailing space 
-,char x_y_z @lengthOf( Header )
-    `u8 x,`
-, } ,} root packet u128{ stringy// a // b
-@lengthOf( options1 ) , } packet i64_
-// " ++ [128512]%N ++ runes_of_ascii " emoji
-// `tick` ""quote"" 'q'
-{ @lengthOf( u128 )
-@lengthOf(pack
-) char[ 4294967296
-] falsey@calculatedFrom( """ ++ [233]%N ++ runes_of_ascii "t" ++ [233]%N ++ runes_of_ascii """
-// " ++ [27880; 37322]%N ++ runes_of_ascii "
-// trailing space 
-),
-}
-")).
-Eval vm_compute in ("<<<M123>>>" ++ check (runes_of_ascii "MetaData len /// triple
-{ //
-f64 T
-`u8 x,` , rootA	stringy ,  zchar repeatCount`say ""hi""` ,
-    MetaDataX As ,i8i8 string_, x_y_z f32a , } options // c
-{ Logon
-    //
-    =
-    string float =  string
-    A =
-""abc""/// triple
-;
-    //
-    A =
-""\" ++ [233]%N ++ runes_of_ascii """Logon =7	}
-    options{ }  options {
-    packetx = ""abc""// c
-; x =
-    true
-}
-")).
-Eval vm_compute in ("<<<M318>>>" ++ check (runes_of_ascii "
-packet As { @leftPad
-( )
-    @leftPad ( ' '  )char[] zchar, A string_
-`" ++ [233]%N ++ runes_of_ascii "`
-,
-a1
-    {	Z9_ @lengthOf(
-    repeatCount )
-    , u128
-{ zchar[4294967296 ] crc
+Eval vm_compute in ("<<<M1208>>>" ++ check (runes_of_ascii "packet o  { match
+asx as u8x {[ ""x y"" ,//
+""CRC32""  ,
+""// no comment"" , ""a	b"" ,  ""abc"" ,// `tick` ""quote"" 'q'
+""// no comment"" ] : Foo, } ,
+int64 uint8x @lengthOf( T// trailing space 
+) ,
+char[ 4294967296//	t
+]roots , // a // b
+repeat Pad{ string
+    zchar @lengthOf(
+asx
+) ,repeat
+    lengthOf{
+string u  @lengthOf(int) ,repeat float64 Packet
+    , } ,
+match uint8x as
+rootA
+{	1
+    : o
+, } , } ,// @lengthOf(
+repeat char[65535
+//
 //x
-//
-@calculatedFrom(  ""packet"" ) ,repeat char x_y_z, }
-,	u8
-    Logon	@calculatedFrom(
-    """ ++ [233]%N ++ runes_of_ascii "t" ++ [233]%N ++ runes_of_ascii """ ) , }, }
-packet
-u { } // " ++ [128512]%N ++ runes_of_ascii " emoji")).
-Eval vm_compute in ("<<<M302>>>" ++ check (runes_of_ascii "packet calculatedFrom {
-    @lengthOf( zchar )	char[]// `tick` ""quote"" 'q'
-chars
-    `line1
-line2` ,string
-    Logon @calculatedFrom( ""it's""  ), matchKey `say ""hi""`, @lengthOf( T
-    // c
-    )
-x_y_z @calculatedFrom(
-    ""it's"" ) `// not a comment`	,
-    }")).
-Eval vm_compute in ("<<<M359>>>" ++ check (runes_of_ascii "
-MetaData falsey
-{uint64
-matchKey
-`// not a comment` ,	char Pad
-    ,
-    int16 Pad
-// packet A { u8 x, }
-// @lengthOf(
-`" ++ [28040; 24687; 31867; 22411]%N ++ runes_of_ascii "`// @lengthOf(
+]crc
+    , @lengthOf( options1 ) string /// triple
+Packet
+    `crlf
+line` , // `tick` ""quote"" 'q'
+pack
+    { u64  i64_`say ""hi""` , i32 a1 `say ""hi""` ,
+    match Z9_
+as
+    // `tick` ""quote"" 'q'
+    msg_type
+    { 65535
+: u
+, [7 , 7 , 42 ,
+""" ++ [28040; 24687]%N ++ runes_of_ascii """ ]  :asx, """ ++ [233]%N ++ runes_of_ascii "t" ++ [233]%N ++ runes_of_ascii """ :_x , [ 255 ]
+// 50% %s
+// trailing space 
+:	metadata, } ,i32 T
+    `" ++ [28040; 24687; 31867; 22411]%N ++ runes_of_ascii "`
 ,
-    zchar[ 00 ]x_y_z, char[] // packet A { u8 x, }
-i64_ , Logon repeatCount `tab	here` ,}")).
-Eval vm_compute in ("<<<M419>>>" ++ check (runes_of_ascii "options
-{
-matchKey = 42/// triple
-x char['0' ;
-// packet A { u8 x, }
-//
-charz
-=
-// packet A { u8 x, }
-// trailing space 
-true  ; } MetaData BodyLength
-{
-uint8
-pack,zchar[ 1]float ,  float32 x_y_z `` ,u32
-_x,i16 body  , }
-")).
-Eval vm_compute in ("<<<M452>>>" ++ check (runes_of_ascii "options
-{
-matchKey = 42/// triple
-x='0' ;
-// packet A { u8 x, }
-//
-charz
-=
-// packet A { u8 x, }
-// trailing space 
-true  ; } } MetaData BodyLength
-{
-uint8
-pack,zchar[ 1]float ,  float32 x_y_z `` ,u32
-_x,i16 body  , }
-")).
-Eval vm_compute in ("<<<M579>>>" ++ check (runes_of_ascii "options
-{
-matchKey = 42/// triple
-x='0' ;
-// packet A { u8 x, }
-//
-charz
-=
-// packet A { u8 x, }
-// trailing space 
-true  ; } MetaData BodyLength
-{
-uint8
-pack,zchar[ 1]float ,  float32 x_y_z `` ,u32
-_x,i16 body  , }
-" ++ [127]%N)).
-Eval vm_compute in ("<<<M523>>>" ++ check (runes_of_ascii "options
-{
-matchKey = 42/// triple
-x='0' ;
-// packet A { u8 x, }
-//
-charz
-=
-// packet A { u8 x, }
-// trailing space 
-true  ; } MetaData BodyLength
-{
-uint8
-pack,zchar[ 1]float ,  float32 x_y_z , ``u32
-_x,i16 body  , }
-")).
-Eval vm_compute in ("<<<M489>>>" ++ check (runes_of_ascii "options
-{
-matchKey = 42/// triple
-x='0' ;
-// packet A { u8 x, }
-//
-charz
-=
-// packet A { u8 x, }
-// trailing space 
-true  ; } MetaData BodyLength
-{
-uint8
-pack,f32 1]float ,  float32 x_y_z `` ,u32
-_x,i16 body  , }
-")).
-Eval vm_compute in ("<<<M1853>>>" ++ check (runes_of_ascii "options {
-    matchKey = 42/// triple
-    x = '0';
-    // packet A { u8 x, }
+} ,
     //
-    charz = true;
-}
-
-MetaData BodyLength {
-    uint8 pack,
-    zchar[1] float,
-    float32 x_y_z,
-    u32 _x,
-    i16 body,
-}")).
-Eval vm_compute in ("<<<M2038>>>" ++ check (runes_of_ascii "packet 
-x_y_z
-{ }
-
-packet Logon {
-repeat i8 int ,
-
-}
-
-root  packet stringy
-	{char
-    chars  , char[]
-a1  @calculatedFrom(
-    ""// no comment""
-	) `// not a comment`
-
-    , 
-string	Logon,	}
-
-")).
-Eval vm_compute in ("<<<M666>>>" ++ check (runes_of_ascii "// c
-packet i64_ {	char[] calculatedFrom , , } packet
-trueish  {@calculatedFrom(
-""a\\"" ) o { i32 falsey@lengthOf( uint8x ),
-} , } // `tick` ""quote"" 'q'
-options {// c
-Z9_ = ' '//
-}
-")).
-Eval vm_compute in ("<<<M709>>>" ++ check (runes_of_ascii "// c
-packet i64_ {	char[] calculatedFrom , } packet
-trueish  {@calculatedFrom(
-""a\\"" ) o { i32 falsey@lengthOf( uint8x ),
-} , } // `tick` ""quote"" 'q'
-options {// c
-Z9_  ' '//
-}
-")).
-Eval vm_compute in ("<<<M565>>>" ++ check (runes_of_ascii "options
-{
-matchKey = 42/// triple
-x='0' ;
-// packet A { u8 x, }
-//
-charz
-=
-// packet A { u8 x, }
+    uint32 rootA,
+    @tag(  007
+    )	repeat
+f64 pack
+    , }")).
+Eval vm_compute in ("<<<M120>>>" ++ check (runes_of_ascii "//
+MetaData	options1{
+    float32 calculatedFrom	, //
+string_ calculatedFrom ,
+char[] msg_type , char[ 1
+] trueish , }
+MetaData	tag { char[] stringy//	t
+,} MetaData chars{ uint32
 // trailing space 
-true  ; } MetaData BodyLength
+//	t
+string_ ,char[	4294967296 ]// 50% %s
+a1
+// " ++ [128512]%N ++ runes_of_ascii " emoji
+// " ++ [27880; 37322]%N ++ runes_of_ascii "
+`u8 x,`
+, o	Logon `" ++ [233]%N ++ runes_of_ascii "`, zchar[
+//
+/// triple
+00] msg_type ,
+repeatCount matchKey , } packet Foo	{ @tag(
+7)
+    @tag(0  ) roots
+a1
+    ,repeat // c
+char[
+00  ] asx
+// `tick` ""quote"" 'q'
+//
+, repeat float , char[]	falsey  `crlf
+line` ,
+i8 u128	,
+int8 chars
+@calculatedFrom( ""// no comment""
+    // 50% %s
+    ) , }root
+packet  u128 {
+    @lengthOf( Packet
+)
+i16 string_ @lengthOf(trueish ) `// not a comment`, @leftPad
+/// triple
+// `tick` ""quote"" 'q'
+(
+    ) u  ,  @rightPad ( ' '
+)	repeat /// triple
+T ,
+    @lengthOf( Z9_ // c
+) i32 float,	}
+")).
+Eval vm_compute in ("<<<M4190>>>" ++ check (runes_of_ascii "// top
+    MetaData
+// c0
+Pad 
+	    // c1
+	{
+        // c2
+x_y_z 
+  // c3
+
+a1 
+// c4
+  ,
+
+// c5
+
+int8 
+// c6
+		trueish 
+  // c7
+	  `two words`  
+      // c8
+, 
+    // c9
+    char[] 
+    // c10
+	x_y_z
+        // c11
+    	`{ , }`
+
+    // c12
+  ,
+    // c13
+	zchar[ 
+  // c14
+	  1 
+	    // c15
+    ] 
+
+    // c16
+    pack 
+        // c17
+`
+` 
+
+// c18
+		, 
+    // c19
+	  len
+// c20
+i64_ 
+    // c21
+
+	, 
+	    // c22
+
+  }
+    // c23
+  MetaData 
+    // c24
+crc 
+        // c25
+      {
+    // c26
+	  zchar[
+	    // c27
+  7 
+        // c28
+  	] 
+    // c29
+
+Z9_ 
+    // c30
+    ,
+
+// c31
+
+  char[] 
+	// c32
+    options1 
+    // c33
+
+  ,
+// c34
+uint32 
+// c35
+	options1
+    // c36
+, 
+// c37
+u  
+  // c38
+
+  MetaDataX
+	    // c39
+
+  ,  
+  // c40
+} 
+// c41
+ 
+")).
+Eval vm_compute in ("<<<M1080>>>" ++ check (runes_of_ascii "packet rootA
+    // 50% %s
+    { falsey
+@calculatedFrom( ""it's"" ) , chars
+    @lengthOf( len ) , @calculatedFrom(
+""a\""b"" ) repeat uint8 msg_type `doc`
+,
+    } root
+    //	t
+    packet pack
+    {
+    @tag( 3 )
+metadata @lengthOf( string_
+    ) `tab	here`
+    ,
+string_
+    @calculatedFrom(
+""" ++ [128512]%N ++ runes_of_ascii """
+)
+    // trailing space 
+    `line1
+line2`
+,@lengthOf( uint8x ) @lengthOf( tag ) @tag( 00	) repeat uint8x{ repeat char metadata ,zchar[3 ]crc,
+u64
+    chars
+@lengthOf(
+    u ) `100% of %d` , } , @lengthOf( metadata
+    // @lengthOf(
+    ) // trailing space 
+@calculatedFrom( ""x y""	)  @calculatedFrom( """" )	repeat float64 Logon`it's`
+,
+    } packet
+uint8x {
+    // trailing space 
+    @tag( 3 )@tag( 3)
+    u32
+    Packet ,}
+// " ++ [128512]%N ++ runes_of_ascii " emoji
+")).
+Eval vm_compute in ("<<<M1400>>>" ++ check (runes_of_ascii "
+packet Z9_ {  char[ 3 ]
+    A , // 50% %s
+zchar[0123456789
+]string_
+@calculatedFrom(// packet A { u8 x, }
+""CRC32"" )`u8 x,` // trailing space 
+, char[]
+Z9_
+`{ , }`	, //
+repeat
+    zchar[  65535 ]  MetaDataX `tab	here` , @lengthOf( charz ) Logon `100% of %d`
+, // @lengthOf(
+@leftPad
+    ( '\x00' )repeat zchar[ 3
+    ] Logon ,@lengthOf( x )	@calculatedFrom(
+""1""
+) @lengthOf( options1  ) body chars
+,
+    metadata
+MetaDataX
+    `u8 x,` ,match options1
+as // " ++ [27880; 37322]%N ++ runes_of_ascii "
+Pad {
+0 :	Packet
+, } , } packet msg_type
+    {
+    //	t
+    @calculatedFrom( """ ++ [233]%N ++ runes_of_ascii "t" ++ [233]%N ++ runes_of_ascii """) charz
+i64_ , }
+packet
+crc { } packet Header { crc ,  } options {
+int= ""packet"" ;u128 =
+0123456789
+/// triple
+// " ++ [27880; 37322]%N ++ runes_of_ascii "
+Foo	= false o	= ""`tick`""
+;}")).
+Eval vm_compute in ("<<<M935>>>" ++ check (runes_of_ascii "packet u {
+repeat
+    char[ 7
+] zchar	, @calculatedFrom( ""x y""
+) // 50% %s
+match
+pack as lengthOf
+/// triple
+// trailing space 
+{ ""\" ++ [233]%N ++ runes_of_ascii """
+:
+    Packet	, ""a\""b"" :
+    len , } , string  metadata
+`" ++ [233]%N ++ runes_of_ascii "`,} packet repeatCount
+{@tag( //	t
+10
+    // 50% %s
+    )  _x `
+` ,
+    @calculatedFrom( ""`tick`""  )
+@tag( 10) // packet A { u8 x, }
+@calculatedFrom( ""// no comment"") repeat f32a
+`
+` ,@rightPad ( )
+@leftPad(
+'\x00')@calculatedFrom( """" ) repeat
+    calculatedFrom { u16 options1	, }
+    ,
+@lengthOf( len ) match uint8x as metadata
+{ [ 7	, 007	, // trailing space 
+""`tick`"" // c
+,3 ] :f32a , 007 :int
+//x
+// c
+,
+255
+/// triple
+//x
+: rootA, [ """ ++ [28040; 24687]%N ++ runes_of_ascii """, 65535
+] :
+    x } , }")).
+Eval vm_compute in ("<<<M3356>>>" ++ check (runes_of_ascii "// top
+packet // c0
+stringy // c1
+{ // c2
+BodyLength // c3
+`crlf
+line` // c4
+, // c5
+@calculatedFrom( // c6
+""`tick`"" // c7
+) // c8
+zchar[ // c9
+007 // c10
+] // c11
+Header // c12
+, // c13
+@lengthOf( // c14
+body // c15
+) // c16
+zchar[ // c17
+42 // c18
+] // c19
+pack // c20
+, // c21
+} // c22
+packet // c23
+Z9_ // c24
+{ // c25
+@lengthOf( // c26
+i64_ // c27
+) // c28
+char[ // c29
+255 // c30
+] // c31
+u // c32
+`u8 x,` // c33
+, // c34
+@lengthOf( // c35
+MetaDataX // c36
+) // c37
+@calculatedFrom( // c38
+""\n"" // c39
+) // c40
+float32 // c41
+Z9_ // c42
+, // c43
+} // c44
+options // c45
+{ // c46
+_x // c47
+= // c48
+""it's"" // c49
+; // c50
+} // c51
+")).
+Eval vm_compute in ("<<<M35>>>" ++ check (runes_of_ascii "root packet x	{ string BodyLength `line1
+line2`  ,  Foo
+    charz `doc` , leftPad `two words`,@lengthOf( falsey
+    ) @tag( 0123456789)leftPad@calculatedFrom( ""a\\"")`say ""hi""`, u //
+u128`{ , }` ,@calculatedFrom(""a	b"" ) zchar[ 10
+// trailing space 
+// packet A { u8 x, }
+]
+    f32a ,
+@lengthOf(	A ) zchar[  255 ] u128 // 50% %s
+`// not a comment`
+    , } MetaData T // 50% %s
+{ i32 packetx
+,int16
+    Packet ,
+repeatCount options1 `{ , }`
+, } packet Packet{ @lengthOf(	leftPad
+    ) @rightPad ()
+    char i8i8// c
+`u8 x,`	, i8i8 `crlf
+line` ,@leftPad (
+    ) i32
+packetx @calculatedFrom( ""a	b""
+    )	,
+    }")).
+Eval vm_compute in ("<<<M796>>>" ++ check (runes_of_ascii "options { }
+    packet len{@lengthOf( matchKey )
+    repeat len , charz
+@calculatedFrom( ""{,}"")
+    `
+`
+,}
+    packet leftPad {@leftPad	(
+' '
+    ) match
+roots as i8i8 { [
+1 ,/// triple
+""" ++ [28040; 24687]%N ++ runes_of_ascii """ ,
+""CRC32"" , ""1""
+,
+255] :
+falsey ,65535 :
+matchKey  ,[ ""1"" ,
+""// no comment""
+    , /// triple
+""a	b"" ,
+""CRC32""
+, 007
+, 65535  , 007 ] : T, [
+00
+//	t
+// 50% %s
+, 4294967296]
+:
+    // c
+    Foo , } ,
+@lengthOf(
+/// triple
+// packet A { u8 x, }
+x_y_z
+    // packet A { u8 x, }
+    )// a // b
+string_ {
+    // packet A { u8 x, }
+    string u128 `100% of %d`, }
+, } // `tick` ""quote"" 'q'")).
+Eval vm_compute in ("<<<M1041>>>" ++ check (runes_of_ascii "packet MetaDataX { @rightPad // a // b
+(' ')
+// " ++ [128512]%N ++ runes_of_ascii " emoji
+// 50% %s
+zchar[	0123456789 ]
+zchar	@lengthOf( a1 // a // b
+) ,  int8 Logon @calculatedFrom( """ ++ [128512]%N ++ runes_of_ascii """ )  ,
+    // " ++ [27880; 37322]%N ++ runes_of_ascii "
+    f32 stringy , repeat i16 Header `crlf
+line` , } root packet o
 {
-uint8
-pack,zchar[ ")).
-Eval vm_compute in ("<<<M1910>>>" ++ check (runes_of_ascii "packet A {
+    zchar[ 10
+] a1
+, @lengthOf( options1 )string
+    charz , match	x_y_z as Foo {1 :
+uint8x , } ,
+@leftPad(
+' '	)@calculatedFrom( ""\" ++ [233]%N ++ runes_of_ascii """
+)zchar[ 1] Packet `doc` , }//x
+packet As
+{ repeat
+    stringy // 50% %s
+{
+char[] packetx ,
+    // packet A { u8 x, }
+    uint32 As  @lengthOf(calculatedFrom ) ,
+} , } // 50% %s")).
+Eval vm_compute in ("<<<M3565>>>" ++ check (runes_of_ascii "options {
+    LittleEndian = true;
+    ArrayPrefixLenType = u32;
+    FixedStringPadFromLeft = true;
+    FixedStringPadChar = '0';
+}
+packet Party {
+}
+root packet Heartbeat {
+    repeat string Tail,
+    InRef14 {
+        InMsgkind17 {
+            int8 Flags,
+            char[10] Acct,
+            zchar[4] sym,
+            i8 Px,
+        },
+        string Px,
+    },
+    uint16 seqNo,
+    int64 tag7,
+    u16 Note,
+    u32 Px @lengthOf(Body),
+    match Note as Body {
+        96 : Party,
+    },
+    u16 Acct @calculatedFrom(""CR\
+C32""),
+}
+")).
+Eval vm_compute in ("<<<M524>>>" ++ check (runes_of_ascii "  packet
+Header { @calculatedFrom( ""abc"" )@tag( 0) //x
+char[1
+]	lengthOf /// triple
+, repeat
+rootA{ o
+// 50% %s
+// " ++ [128512]%N ++ runes_of_ascii " emoji
+{ float , repeat uint32	repeatCount`" ++ [28040; 24687; 31867; 22411]%N ++ runes_of_ascii "`, //x
+match
+stringy as Header {7
+    // " ++ [27880; 37322]%N ++ runes_of_ascii "
+    : int[42 ,	""\n"" ]// `tick` ""quote"" 'q'
+: pack  , },string u128@lengthOf(
+uint8x )	,// `tick` ""quote"" 'q'
+} , }
+, repeat
+repeatCount``, @lengthOf( // @lengthOf(
+packetx
+) Z9_ x_y_z //	t
+`{ , }` , }
+    root packet MetaDataX {
+repeat char[ 0 ] Header  `u8 x,` ,
+    } packet T { }
+// packet A { u8 x, }
+")).
+Eval vm_compute in ("<<<M785>>>" ++ check (runes_of_ascii "  packet
+    Foo
+// 50% %s
+// `tick` ""quote"" 'q'
+{ } packet chars
+{ @calculatedFrom( """ ++ [28040; 24687]%N ++ runes_of_ascii """  ) @lengthOf( trueish )
+x_y_z
+@calculatedFrom(
+""1"" ) ,
+    @calculatedFrom( ""CRC32""
+) /// triple
+zchar[ 255 ]
+    /// triple
+    u
+// `tick` ""quote"" 'q'
+//x
+,// c
+Z9_ matchKey  `// not a comment`, @rightPad (
+    '0'
+)@calculatedFrom( ""\" ++ [233]%N ++ runes_of_ascii """ )	@lengthOf(
+    Header
+    )// packet A { u8 x, }
+repeatCount @calculatedFrom( ""1""
+    ) `line1
+line2`
+    , } MetaData
+Z9_ { msg_type rootA
+    // c
+    ,}")).
+Eval vm_compute in ("<<<M4115>>>" ++ check (runes_of_ascii "options {
+    pack = false;
+    i64_ = ""1""
+    len = ' '
+}
+
+// @lengthOf(
+// " ++ [27880; 37322]%N ++ runes_of_ascii "
+packet Z9_ {
+    repeat char[1] i8i8 `
+    `,
+    @lengthOf(crc)
+    options1 {
+        repeat char[] f32a `{ , }`,
+        match uint8x as _x {
+            ""packet"" : charz,
+            ""\" ++ [233]%N ++ runes_of_ascii """ : trueish,
+            [007, ""abc""] : i64_,
+            007 : o,
+            4294967296 : options1,
+        },
+        repeat uint8x,
+    },
+    char[65535] repeatCount `100% of %d`,// a // b
+}")).
+Eval vm_compute in ("<<<M1181>>>" ++ check (runes_of_ascii "packet
+    BodyLength { uint16 crc
+// 50% %s
+// @lengthOf(
+@calculatedFrom( """ ++ [28040; 24687]%N ++ runes_of_ascii """ ) `crlf
+line` , int`// not a comment`  ,
+// @lengthOf(
+// trailing space 
+@leftPad
+( '0' ) string tag ,
+    string_ ,f64 zchar// 50% %s
+,	metadata
+    // @lengthOf(
+    @calculatedFrom( ""a\\"" ) ,@tag( 00
+)
+    repeat int8 u8x	, match int as o {
+""// no comment"":  body , ""a	b"" : trueish 007 :
+falsey ,""a\""b"" : tag,
+    10: trueish ,  } , Pad // @lengthOf(
+, }
+")).
+Eval vm_compute in ("<<<M862>>>" ++ check (runes_of_ascii "
+packet Foo
+{ @tag(
+    42
+)	char[
+    7 ]
+    calculatedFrom
+    @lengthOf(  asx ) , i16 metadata ,
+// @lengthOf(
+/// triple
+@lengthOf( x )char[] uint8x `
+` ,}
+packet	BodyLength  {
+i16 trueish `it's` , @calculatedFrom( ""\n""  )
+    uint32
+    BodyLength `{ , }` , } packet _x {@tag( 0 )packetx@lengthOf(
+chars )`
+` ,
+    // c
+    @tag(00 ) repeat u
+// " ++ [128512]%N ++ runes_of_ascii " emoji
+/// triple
+asx `" ++ [28040; 24687; 31867; 22411]%N ++ runes_of_ascii "`	, @tag( 0) i8 charz
+@lengthOf(lengthOf  )  ,}
+")).
+Eval vm_compute in ("<<<M38>>>" ++ check (runes_of_ascii "options
+{}MetaData msg_type { }packet
+body
+    { A{
+    repeat  char[00 ] stringy,	} , match  packetx
+    as a1
+{00
+/// triple
+// " ++ [27880; 37322]%N ++ runes_of_ascii "
+: BodyLength, ""x y"" // c
+:
+Logon , [ 7 ] //	t
+: x_y_z	, 42
+/// triple
+// `tick` ""quote"" 'q'
+:// " ++ [128512]%N ++ runes_of_ascii " emoji
+Packet
+,[
+    0123456789] :
+    Packet , }, @leftPad (
+    '\x00' )
+    // packet A { u8 x, }
+    uint16 // 50% %s
+uint8x `say ""hi""` , @leftPad
+    (  '0' )	stringy x_y_z , }
+")).
+Eval vm_compute in ("<<<M4094>>>" ++ check (runes_of_ascii "
+root	packet
+
+_x { match 
+x_y_z
+	as 
+o
+    {
+[	0,
+
+    65535  //x
+
+  ]
+	:stringy
+
+, ""{,}""
+: 
+  // " ++ [128512]%N ++ runes_of_ascii " emoji
+	// c
+    string_ }, 
+}
+	MetaData
+	x_y_z
+	{
+
+BodyLength
+u8x	`line1
+line2`
+	,}
+	packet	chars{
+	@tag(  3
+
+    )
+	f64  options1	`// not a comment`
+,  string 
+tag 
+    /// triple
+      @lengthOf( 
+BodyLength )
+    ,@tag(
+42 )
+    @tag(
+    0
+
+)
+@tag(
+
+65535)zchar[
+10]
+    u128
+    `" ++ [28040; 24687; 31867; 22411]%N ++ runes_of_ascii "`
+
+,  }")).
+Eval vm_compute in ("<<<M98>>>" ++ check (runes_of_ascii "MetaData string_ {
+} MetaData _x
+    // packet A { u8 x, }
+    { zchar[
+    10]  chars
+, } packet Logon{ @rightPad ( ' ') @tag(
+255
+    )
+char[ 10
+    ]charz,@lengthOf(
+lengthOf)// " ++ [128512]%N ++ runes_of_ascii " emoji
+@lengthOf( packetx ) //	t
+@calculatedFrom( ""\n"" ) f32 stringy `line1
+line2`  , repeat
+T{Logon @calculatedFrom(//	t
+""a\""b""
+    )`" ++ [233]%N ++ runes_of_ascii "` ,  repeat char[ 65535] Foo , }
+,
+    // trailing space 
+    }")).
+Eval vm_compute in ("<<<M1219>>>" ++ check (runes_of_ascii "packet
+    f32a {
+@lengthOf(	Z9_ // c
+) repeat char[ 4294967296
+    ]A  ,	i16 asx , @leftPad('\x00'
+)
+    char
+    Header , zchar[ 4294967296] pack,
+match
+    // " ++ [27880; 37322]%N ++ runes_of_ascii "
+    len as	tag { [  """ ++ [233]%N ++ runes_of_ascii "t" ++ [233]%N ++ runes_of_ascii """
+,1
+, ""`tick`"" , 0123456789, 00
+/// triple
+/// triple
+,""a	b"" , ""x y"" //	t
+, ""CRC32"" ] :roots
+// 50% %s
+/// triple
+,}	,
+    @tag(
+255)
+u128 @lengthOf(trueish
+    ) `100% of %d`,}
+")).
+Eval vm_compute in ("<<<M3706>>>" ++ check (runes_of_ascii "
+root  packet
+
+    rootA
+
+{
+
+char[ 4294967296	] _x`say ""hi""`
+
+    , repeat 
+  // " ++ [128512]%N ++ runes_of_ascii " emoji
+    	chars
+	i64_  // packet A { u8 x, }
+
+,	@lengthOf( // " ++ [27880; 37322]%N ++ runes_of_ascii "
+stringy 	 //	t
+) 
+    // `tick` ""quote"" 'q'
+//x
+@lengthOf( chars )repeat
+
+char[]
+rootA  , 
+    // trailing space 
+float@lengthOf( 
+zchar	) 
+`u8 x,`	// a // b
+  ,
+	@calculatedFrom(	""a	b""
+    )
+	A ,
+	} ")).
+Eval vm_compute in ("<<<M3718>>>" ++ check (runes_of_ascii "packet charz {
+    @lengthOf(x)
+    T rootA `u8 x,`,
+    repeat Logon stringy,
+}
+
+packet len {
+    string As ``,
+    x_y_z {
+        string x @calculatedFrom(""\n"") `two words`,
+        u128 @lengthOf(pack),
+        char[10] crc @lengthOf(i8i8) `u8 x,`,
+        repeat char[] MetaDataX,
+    },
+    int16 matchKey `a\`,
+    // packet A { u8 x, }
+}")).
+Eval vm_compute in ("<<<M3761>>>" ++ check (runes_of_ascii "packet falsey {
+    // @lengthOf(
+    @rightPad(' ')
+    int a1,
+    @calculatedFrom(""packet"")
+    @lengthOf(lengthOf)
+    repeat uint64 Logon,
+    char[3] T `crlf
+        line`,
+    @rightPad()
+    @tag(255)
+    @lengthOf(BodyLength)
+    repeat char[007] asx,
+    repeat _x Pad `a\`,
+    int16 asx ``,
+    char uint8x `doc`,
+}")).
+Eval vm_compute in ("<<<M1217>>>" ++ check (runes_of_ascii "packet crc { string // 50% %s
+chars  `
+` , i64
+Z9_ @calculatedFrom( ""1"" ) ,
+match zchar as asx {
+4294967296
+    : trueish
+,} // @lengthOf(
+,	}  options {
+zchar // c
+=""""; } root packet
+matchKey { zchar[
+65535//
+] int // `tick` ""quote"" 'q'
+,
+zchar[ 4294967296 ]leftPad `// not a comment` // a // b
+, }
+// 50% %s
+")).
+Eval vm_compute in ("<<<M3828>>>" ++ check (runes_of_ascii "// top
+MetaData body {
+    // c2
+}// c3a
+
+// c3b
+root packet chars {
+    // c7a
+    // c7b
+    @lengthOf(i64_)
+    // c10
+    chars,
+    // c12
+    i8i8 {
+        // c14a
+        // c14b
+        falsey @lengthOf(stringy) ``,// c20a
+        // c20b
+    },
+    x @lengthOf(A) `tab	here`,
+}// c29a
+// c29b")).
+Eval vm_compute in ("<<<M4320>>>" ++ check (runes_of_ascii "root
+    packet 
+Pad {}	packet 
+    // a // b
+  //
+    As
+
+{Logon
+
+{ repeat roots
+{  char[ 007 ]
+roots ,
+chars	f32a,},charz
+    @calculatedFrom(//x
+""" ++ [28040; 24687]%N ++ runes_of_ascii """
+),
+
+    zchar[ 
+3  
+      // packet A { u8 x, }
+		]repeatCount
+`
+`
+,
+
+    },
+
+    }  MetaData
+u8x
+    {  //
+  int64 
+Header,
+}
+")).
+Eval vm_compute in ("<<<M1872>>>" ++ check (runes_of_ascii "packet	packetx { // trailing space 
+x_y_z
+{
+string string
+charz ,
+string x// @lengthOf(
+`two words`
+    ,  u8x { // `tick` ""quote"" 'q'
+charz `100% of %d` // packet A { u8 x, }
+,}// " ++ [27880; 37322]%N ++ runes_of_ascii "
+,} , }
+    // a // b
+    packet metadata {  @leftPad ( '0') repeat i32 options1 ,u64 uint8x , }
+")).
+Eval vm_compute in ("<<<M1929>>>" ++ check (runes_of_ascii "packet	packetx { // trailing space 
+x_y_z
+{
+string
+charz ,
+string x// @lengthOf(
+`two words`
+    ,  u8x { // `tick` ""quote"" 'q'
+charz `100% of %d` // packet A { u8 x, }
+root}// " ++ [27880; 37322]%N ++ runes_of_ascii "
+,} , }
+    // a // b
+    packet metadata {  @leftPad ( '0') repeat i32 options1 ,u64 uint8x , }
+")).
+Eval vm_compute in ("<<<M2003>>>" ++ check (runes_of_ascii "packet	packetx { // trailing space 
+x_y_z
+{
+string
+charz ,
+string x// @lengthOf(
+`two words`
+    ,  u8x { // `tick` ""quote"" 'q'
+charz `100% of %d` // packet A { u8 x, }
+,}// " ++ [27880; 37322]%N ++ runes_of_ascii "
+,} , }
+    // a // b
+    packet metadata {  @leftPad ( '0') repeat i32 , options1 u64 uint8x , }
+")).
+Eval vm_compute in ("<<<M1958>>>" ++ check (runes_of_ascii "packet	packetx { // trailing space 
+x_y_z
+{
+string
+charz ,
+string x// @lengthOf(
+`two words`
+    ,  u8x { // `tick` ""quote"" 'q'
+charz `100% of %d` // packet A { u8 x, }
+,}// " ++ [27880; 37322]%N ++ runes_of_ascii "
+,} , }
+    // a // b
+    metadata packet {  @leftPad ( '0') repeat i32 options1 ,u64 uint8x , }
+")).
+Eval vm_compute in ("<<<M1966>>>" ++ check (runes_of_ascii "packet	packetx { // trailing space 
+x_y_z
+{
+string
+charz ,
+string x// @lengthOf(
+`two words`
+    ,  u8x { // `tick` ""quote"" 'q'
+charz `100% of %d` // packet A { u8 x, }
+,}// " ++ [27880; 37322]%N ++ runes_of_ascii "
+,} , }
+    // a // b
+    packet metadata   @leftPad ( '0') repeat i32 options1 ,u64 uint8x , }
+")).
+Eval vm_compute in ("<<<M3769>>>" ++ check (runes_of_ascii "// top
+options {
+    // c1
+}
+
+// c2
+options {
+    // c4
+    string_ = false;
+    // c8
+    msg_type = ""1"";
+    // c12
+}
+
+// c13
+MetaData lengthOf {
+    // c16
+    zchar[4294967296] Z9_,
+    // c21
+    uint8 i8i8 `two words`,
+    // c25
+    char[7] charz,
+    // c30
+}
+// c31")).
+Eval vm_compute in ("<<<M2095>>>" ++ check (runes_of_ascii "packet// packet A { u8 x, }
+repeatCount	{// packet A { u8 x, }
+@leftPad ( '\x00'
+) repeat u8x MetaDataX MetaDataX `crlf
+line`,
+    repeat
+    char[] MetaDataX
+    ,
+u64	uint8x@calculatedFrom(""a\""b""
+// c
+// packet A { u8 x, }
+) `tab	here`
+,//
+}MetaData pack
+    {
+    }
+")).
+Eval vm_compute in ("<<<M4411>>>" ++ check (runes_of_ascii "packet charz {
+    char[007] pack @calculatedFrom(""// no comment""),
+    u128,
+    @tag(1)
+    @leftPad()
+    match zchar as string_ {
+        [65535, 00, 4294967296, 255, 007] : Pad,
+        // packet A { u8 x, }
+        3 : MetaDataX,
+    },
+    metadata string_,
+}")).
+Eval vm_compute in ("<<<M1419>>>" ++ check (runes_of_ascii "packet calculatedFrom calculatedFrom
+{ @calculatedFrom( ""a\\"" ) zchar[ 4294967296 ]
+calculatedFrom@lengthOf( pack )	`100% of %d` ,char[]body@calculatedFrom( ""// no comment"" )  ,
+@tag( 007) //x
+int8
+leftPad`it's` , repeat pack
+    { repeat char[ 3] body
+,},
+}")).
+Eval vm_compute in ("<<<M973>>>" ++ check (runes_of_ascii "packet i64_ {
+    char[]
+// `tick` ""quote"" 'q'
+// a // b
+i8i8 @lengthOf( i8i8 )`say ""hi""` ,
+}root
+    packet Logon
+    { match Logon as A
+    {
+    [
+    4294967296 ] : trueish ""a\""b"" : tag,[ 10 ,
+""\" ++ [233]%N ++ runes_of_ascii """ ,	""x y""] :
+    A
+, """ ++ [233]%N ++ runes_of_ascii "t" ++ [233]%N ++ runes_of_ascii """
+: rootA } ,}MetaData falsey
+{
+}
+")).
+Eval vm_compute in ("<<<M2156>>>" ++ check (runes_of_ascii "packet// packet A { u8 x, }
+repeatCount	{// packet A { u8 x, }
+@leftPad ( '\x00'
+) repeat u8x MetaDataX `crlf
+line`,
+    repeat
+    char[] MetaDataX
+    ,
+u64	uint8x@calculatedFrom(""a\""b""
+// c
+// packet A { u8 x, }
+) ,
+`tab	here`//
+}MetaData pack
+    {
+    }
+")).
+Eval vm_compute in ("<<<M2137>>>" ++ check (runes_of_ascii "packet// packet A { u8 x, }
+repeatCount	{// packet A { u8 x, }
+@leftPad ( '\x00'
+) repeat u8x MetaDataX `crlf
+line`,
+    repeat
+    char[] MetaDataX
+    ,
+u64	i16@calculatedFrom(""a\""b""
+// c
+// packet A { u8 x, }
+) `tab	here`
+,//
+}MetaData pack
+    {
+    }
+")).
+Eval vm_compute in ("<<<M1519>>>" ++ check (runes_of_ascii "packet calculatedFrom
+{ @calculatedFrom( ""a\\"" ) zchar[ 4294967296 ]
+calculatedFrom@lengthOf( pack )	`100% of %d` ,char[]body@calculatedFrom( ""// no comment"" )  ,
+@tag( @tag( 007) //x
+int8
+leftPad`it's` , repeat pack
+    { repeat char[ 3] body
+,},
+}")).
+Eval vm_compute in ("<<<M4269>>>" ++ check (runes_of_ascii "MetaData MetaDataX {
+    u64 As,
+    Pad falsey `crlf
+        line`,
+}
+
+MetaData packetx {
+    string tag,
+    string repeatCount,
+}//	t
+
+packet leftPad {
+    chars,
+    uint16 u128,
+    @lengthOf(int)
+    _x Foo `u8 x,`,
+    x @lengthOf(asx),
+}// " ++ [27880; 37322]%N)).
+Eval vm_compute in ("<<<M2055>>>" ++ check (runes_of_ascii "packet// packet A { u8 x, }
+	{// packet A { u8 x, }
+@leftPad ( '\x00'
+) repeat u8x MetaDataX `crlf
+line`,
+    repeat
+    char[] MetaDataX
+    ,
+u64	uint8x@calculatedFrom(""a\""b""
+// c
+// packet A { u8 x, }
+) `tab	here`
+,//
+}MetaData pack
+    {
+    }
+")).
+Eval vm_compute in ("<<<M1430>>>" ++ check (runes_of_ascii "packet calculatedFrom
+{ ""a\\"" @calculatedFrom( ) zchar[ 4294967296 ]
+calculatedFrom@lengthOf( pack )	`100% of %d` ,char[]body@calculatedFrom( ""// no comment"" )  ,
+@tag( 007) //x
+int8
+leftPad`it's` , repeat pack
+    { repeat char[ 3] body
+,},
+}")).
+Eval vm_compute in ("<<<M1601>>>" ++ check (runes_of_ascii "packet calculatedFrom
+{ @calculatedFrom( ""a\\"" ) zchar[ 4294967296 ]
+calculatedFrom@lengthOf( pack )	`100% of %d` ,char[]body@calculatedFrom( ""// no comment"" )  ,
+@tag( 007) //x
+int8
+leftPad`it's` , repeat pack
+    { repeat char[ 3] body
+,,,
+}")).
+Eval vm_compute in ("<<<M1471>>>" ++ check (runes_of_ascii "packet calculatedFrom
+{ @calculatedFrom( ""a\\"" ) zchar[ 4294967296 ]
+calculatedFrom@lengthOf( : )	`100% of %d` ,char[]body@calculatedFrom( ""// no comment"" )  ,
+@tag( 007) //x
+int8
+leftPad`it's` , repeat pack
+    { repeat char[ 3] body
+,},
+}")).
+Eval vm_compute in ("<<<M1481>>>" ++ check (runes_of_ascii "packet calculatedFrom
+{ @calculatedFrom( ""a\\"" ) zchar[ 4294967296 ]
+calculatedFrom@lengthOf( pack )	uint32 ,char[]body@calculatedFrom( ""// no comment"" )  ,
+@tag( 007) //x
+int8
+leftPad`it's` , repeat pack
+    { repeat char[ 3] body
+,},
+}")).
+Eval vm_compute in ("<<<M1418>>>" ++ check (runes_of_ascii "packet 
+{ @calculatedFrom( ""a\\"" ) zchar[ 4294967296 ]
+calculatedFrom@lengthOf( pack )	`100% of %d` ,char[]body@calculatedFrom( ""// no comment"" )  ,
+@tag( 007) //x
+int8
+leftPad`it's` , repeat pack
+    { repeat char[ 3] body
+,},
+}")).
+Eval vm_compute in ("<<<M3960>>>" ++ check (runes_of_ascii "
+MetaData repeatCount  
+      // `tick` ""quote"" 'q'
+  {i16	i8i8 `it's`
+
+, 
+} packet
+    _x 
+{ stringy MetaDataX	,
+}  options
+	    // a // b
+    { 
+T
+    // c
+	=
+char[
+    // @lengthOf(
+
+  0
+    ]
+	; Header
+=
+
+""it's"";
+	}")).
+Eval vm_compute in ("<<<M1177>>>" ++ check (runes_of_ascii "packet  Header
+    { // @lengthOf(
+char matchKey
+    // trailing space 
+    @calculatedFrom(
+""\" ++ [233]%N ++ runes_of_ascii """) , // " ++ [128512]%N ++ runes_of_ascii " emoji
+}options { uint8x
+= ""abc""
+;	msg_type // " ++ [128512]%N ++ runes_of_ascii " emoji
+= char[ // packet A { u8 x, }
+255 ] ;
+} // " ++ [27880; 37322]%N)).
+Eval vm_compute in ("<<<M1273>>>" ++ check (runes_of_ascii "// c
+MetaData zchar{ }MetaData
+o {
+    uint8 // 50% %s
+float
+    ,A x `crlf
+line` , zchar[	0 ]
+    Pad,	u8
+// trailing space 
+// trailing space 
+string_,u8
+    Logon,i64 stringy`// not a comment`	,	}
+")).
+Eval vm_compute in ("<<<M4124>>>" ++ check (runes_of_ascii "MetaData o {
+    Foo repeatCount `" ++ [28040; 24687; 31867; 22411]%N ++ runes_of_ascii "`,
+    trueish len,
+    uint32 Logon `say ""hi""`,
+}
+
+MetaData pack {
+    char[] trueish `// not a comment`,
+    i8 i64_,
+}
+
+packet crc {
+    char[00] o ``,
+}")).
+Eval vm_compute in ("<<<M1375>>>" ++ check (runes_of_ascii "
+options {} packet a1 {
+    repeat
+    o , } //	t
+MetaData charz// packet A { u8 x, }
+{ i8 i8i8 , } packet
+charz {
+    char As
+    @calculatedFrom( ""a	b""// a // b
+) `tab	here` ,
+    }
+")).
+Eval vm_compute in ("<<<M1146>>>" ++ check (runes_of_ascii "MetaData
+    pack
+    {
+    tag A ,
+string  matchKey `two words` ,  i64 x_y_z `it's`
+    , len options1
+`// not a comment`,
+char[ 255 ]// 50% %s
+string_ `a\`  ,  int32 leftPad
+,}
+")).
+Eval vm_compute in ("<<<M1084>>>" ++ check (runes_of_ascii "options { Foo
+    ='\x00' rootA
+    = uint8 //
+u128= 7 ;x_y_z  = char[ 0123456789 ]; }
+MetaData lengthOf // 50% %s
+{ Packet body
+, asx lengthOf`
+` ,
+packetx As, } // 50% %s")).
+Eval vm_compute in ("<<<M1269>>>" ++ check (runes_of_ascii "
+packet Packet
+//
+//x
+{ @tag( 0
+    ) repeat
+    char[ 007 ] // `tick` ""quote"" 'q'
+matchKey `" ++ [28040; 24687; 31867; 22411]%N ++ runes_of_ascii "` , @tag( 65535 ) falsey @lengthOf( len
+)
+    ,MetaDataX `doc`	, }
+")).
+Eval vm_compute in ("<<<M1728>>>" ++ check (runes_of_ascii "options { } packet Packet{char[] i64_ ,
+@tag(
+    255) match
+crc as i8i8{""{,}"" : trueish trueish """" : Pad , ""a\\"" :
+Foo ,
+    1 :packetx
+, """ ++ [128512]%N ++ runes_of_ascii """ : trueish , } , }")).
+Eval vm_compute in ("<<<M4465>>>" ++ check (runes_of_ascii "packet A {
     match k as n {
         [
-            1, 22, ""c c"", 4, 5,
-            ""f"", 7, 8, ""i"", 10,
+            1, ""bb"", 007, ""d"", 5,
+            ""f"", 7, ""h"", 9, ""j"",
             11
         ] : B,
         2 : C,
     },
 }")).
-Eval vm_compute in ("<<<M1571>>>" ++ check (runes_of_ascii "root packet f32a {
-    char[] x_y_z `doc`,
-    @calculatedFrom(""CRC32"")
-    A tag `u8 x,`,
-    int,
-}
-
-options {
-    Packet = ""1"";
-}
-
-options {
-}")).
-Eval vm_compute in ("<<<M1367>>>" ++ check (runes_of_ascii "options{	LittleEndian	= true	;	}
-
-    root
-packet
-	P
-	{
-
-    u16
-
-    a ,
-u32
-    Sum
-@calculatedFrom( ""CRC32""
-	) 
+Eval vm_compute in ("<<<M806>>>" ++ check (runes_of_ascii "MetaData u8x {}
+packet // trailing space 
+zchar// `tick` ""quote"" 'q'
+{ charz {
+trueish// 50% %s
+`two words`
+, }
 ,
-
-    }
-")).
-Eval vm_compute in ("<<<M1656>>>" ++ check (runes_of_ascii "
-packet
-	calculatedFrom
-
+    } options {T
+    = string } // " ++ [128512]%N ++ runes_of_ascii " emoji")).
+Eval vm_compute in ("<<<M2375>>>" ++ check (runes_of_ascii "
+packet MetaDataX
 {
-    @tag( 
-4294967296)u msg_type 
-, 
-char[ 
-3 ]
-    // c
-  	crc@lengthOf(
-    len
-	)`u8 x,`
-
-,  }
-
+    @leftPad
+( // a // b
+'0'
+) i8 u @lengthOf(
+MetaDataX
+    ) `say ""hi""` ,	MetaData } BodyLength {
+    asx
+x_y_z `" ++ [233]%N ++ runes_of_ascii "`
+, uint64 u128 , }
 ")).
-Eval vm_compute in ("<<<M644>>>" ++ check (runes_of_ascii "MetaData
-    // trailing space 
-    matchKey
-{ u64 chars // a // b
-'1' ,char[] lengthOf `// not a comment`
-    , //	t
-}")).
-Eval vm_compute in ("<<<M634>>>" ++ check (runes_of_ascii "MetaData
-    // trailing space 
-    matchKey
-{ u64 chars // a // b
-,char[] lengthOf `// not a comment`
-    as //	t
-}")).
-Eval vm_compute in ("<<<M1763>>>" ++ check (runes_of_ascii "MetaData
-float
-
-{ } options
-{ msg_type=
-
-""a	b""
-i8i8 =true stringy
-	= 
-""CRC32"" 
-}
-options
-{ 
-len
-
-    =
-
-""\" ++ [233]%N ++ runes_of_ascii """  } ")).
-Eval vm_compute in ("<<<M659>>>" ++ check (runes_of_ascii "MetaData
-    // trailing space 
-    matchKey
-{ u64 x" ++ [178]%N ++ runes_of_ascii " // a // b
-,char[] lengthOf `// not a comment`
-    , //	t
-}")).
-Eval vm_compute in ("<<<M621>>>" ++ check (runes_of_ascii "MetaData
-    // trailing space 
-    matchKey
-{ u64 chars // a // b
-,char[]  `// not a comment`
-    , //	t
-}")).
-Eval vm_compute in ("<<<M1358>>>" ++ check (runes_of_ascii "
-packet	B  { u8
-    a	,	string s	, }
+Eval vm_compute in ("<<<M1800>>>" ++ check (runes_of_ascii "options { } packet Packet{char[] i64_ ,
+@tag(
+    255) match
+crc as i8i8{""{,}"" : trueish """" : Pad , ""a\\"" :
+Foo ,
+    1 :packetx
+, """ ++ [128512]%N ++ runes_of_ascii """ i32 trueish , } , }")).
+Eval vm_compute in ("<<<M1810>>>" ++ check (runes_of_ascii "options { } packet Packet{char[] i64_ ,
+@tag(
+    255) match
+crc as i8i8{""{,}"" : trueish """" : Pad , ""a\\"" :
+Foo ,
+    1 :packetx
+, """ ++ [128512]%N ++ runes_of_ascii """ : trueish as } , }")).
+Eval vm_compute in ("<<<M1724>>>" ++ check (runes_of_ascii "options { } packet Packet{char[] i64_ ,
+@tag(
+    255) match
+crc as i8i8{""{,}"" trueish : """" : Pad , ""a\\"" :
+Foo ,
+    1 :packetx
+, """ ++ [128512]%N ++ runes_of_ascii """ : trueish , } , }")).
+Eval vm_compute in ("<<<M1210>>>" ++ check (runes_of_ascii "root
+packet
+asx
+    //
+    { uint16
+    u128 `// not a comment` , @leftPad() zchar[
+/// triple
+// trailing space 
+0 ]
+    Foo @lengthOf(msg_type  )  , }")).
+Eval vm_compute in ("<<<M1067>>>" ++ check (runes_of_ascii "
 root packet
+lengthOf {
+    u16 f32a @lengthOf(
+crc) , //x
+@lengthOf( matchKey /// triple
+)  @lengthOf(
+    packetx
+) crc @lengthOf( Pad ) `" ++ [28040; 24687; 31867; 22411]%N ++ runes_of_ascii "`,} 	 ")).
+Eval vm_compute in ("<<<M4430>>>" ++ check (runes_of_ascii "MetaData metadata	{	}	// c
+  MetaData 
+rootA
 
-    P {	u16
+{i8 
+i64_
 
-L
-	@lengthOf( B)	,
-B,
-u8
-t
+    ,	roots 
+options1
+`a\`
+
+    ,	lengthOf
+    Header
+, 
+Z9_  Foo	, int16	BodyLength ,  } ")).
+Eval vm_compute in ("<<<M1816>>>" ++ check (runes_of_ascii "options { } packet Packet{char[] i64_ ,
+@tag(
+    255) match
+crc as i8i8{""{,}"" : trueish """" : Pad , ""a\\"" :
+Foo ,
+    1 :packetx
+, """ ++ [128512]%N ++ runes_of_ascii """ : trueish ,")).
+Eval vm_compute in ("<<<M4487>>>" ++ check (runes_of_ascii "
+MetaData
+    float{
+
+uint8
+
+BodyLength	,
+	}
+	MetaData
+charz{ 
+float32 trueish
+`a\`
 	,
 
-    } ")).
-Eval vm_compute in ("<<<M1269>>>" ++ check (runes_of_ascii "packet calculatedFrom { @tag( 4294967296 ) u msg_type , // c
-char[ 3 ] crc @lengthOf( len ) `u8 x,` , }")).
-Eval vm_compute in ("<<<M888>>>" ++ check (runes_of_ascii "packet A {
-  match k as n {
-    [""a"", ""bb"", 007, ""d"", ""e"", 66, ""g"", ""h"", 9, ""j""] : B
-    2 : C
-  },
-}")).
-Eval vm_compute in ("<<<M2030>>>" ++ check (runes_of_ascii "
+    i16 metadata
+    `say ""hi""`
 
-  packet
-
-A
-
-{
-	Inner{
-    u8 x	`a
-    b
-  c`
-,
-
-    Deep {u8	y`a
-    b
-  c`, 
+    , }  
+  // c")).
+Eval vm_compute in ("<<<M3968>>>" ++ check (runes_of_ascii "MetaData metadata {
 }
-,
-}	, }
+
+MetaData rootA {
+    i8 i64_,
+    roots options1 `a\`,
+    lengthOf Header,// c
+    Z9_ Foo,
+    int16 BodyLength,
+}")).
+Eval vm_compute in ("<<<M1050>>>" ++ check (runes_of_ascii "
+packet	crc{ int32 Z9_ @lengthOf( tag
+    )
+`// not a comment`//x
+, }
+    MetaData
+string_  { }
+    // c
+    options {
+a1
+= """ ++ [233]%N ++ runes_of_ascii "t" ++ [233]%N ++ runes_of_ascii """}
+
 ")).
-Eval vm_compute in ("<<<M1147>>>" ++ check (runes_of_ascii "packet Logon { @tag( 42 ) @rightPad ( ' '
+Eval vm_compute in ("<<<M1262>>>" ++ check (runes_of_ascii "options {f32a =
+    // @lengthOf(
+    false // packet A { u8 x, }
+stringy =  255;  len = ""// no comment""// packet A { u8 x, }
+; }
+")).
+Eval vm_compute in ("<<<M1389>>>" ++ check (runes_of_ascii "
+packet uint8x{// " ++ [128512]%N ++ runes_of_ascii " emoji
+int16
+    f32a
+, }
+options { chars  = ""`tick`"" ; trueish = // a // b
+int64 Pad =// 50% %s
+""\n"";
+}
+")).
+Eval vm_compute in ("<<<M3285>>>" ++ check (runes_of_ascii "MetaData metadata { } MetaData rootA { i8 i64_ , roots options1
 // c
-) @leftPad ( ) repeat trueish { string T , } , }")).
-Eval vm_compute in ("<<<M871>>>" ++ check (runes_of_ascii "packet A {
+`a\` , lengthOf Header , Z9_ Foo , int16 BodyLength , }")).
+Eval vm_compute in ("<<<M3780>>>" ++ check (runes_of_ascii "packet msg_type {
+    i8 roots `
+    `,
+    uint8 zchar @calculatedFrom(""1"") ``,
+}
+
+MetaData packetx {
+    uint16 Z9_ ``,
+}")).
+Eval vm_compute in ("<<<M1492>>>" ++ check (runes_of_ascii "packet calculatedFrom
+{ @calculatedFrom( ""a\\"" ) zchar[ 4294967296 ]
+calculatedFrom@lengthOf( pack )	`100% of %d` ,")).
+Eval vm_compute in ("<<<M574>>>" ++ check (runes_of_ascii "MetaData matchKey { o Logon , T i64_ , float u , MetaDataX	lengthOf`
+`
+    //	t
+    , i16 o ,	a1 chars
+    , }
+
+")).
+Eval vm_compute in ("<<<M3324>>>" ++ check (runes_of_ascii "MetaData float { uint8 // c
+BodyLength , } MetaData charz { float32 trueish `a\` , i16 metadata `say ""hi""` , }")).
+Eval vm_compute in ("<<<M3853>>>" ++ check (runes_of_ascii "packet options1 {
+    repeat char[4294967296] i64_,
+    string repeatCount `
+        `,
+}// packet A { u8 x, }")).
+Eval vm_compute in ("<<<M1271>>>" ++ check (runes_of_ascii "MetaData rootA { stringy
+o
+    ,int32// 50% %s
+Z9_`u8 x,`
+, char[ 0 ] crc `two words`
+, //x
+}
+/// triple
+")).
+Eval vm_compute in ("<<<M4295>>>" ++ check (runes_of_ascii "MetaData pack 
+        // trailing space 
+// a // b
+  	{
+
+uint8 x  // a // b
+	  ,
+string  chars  ,	} ")).
+Eval vm_compute in ("<<<M3003>>>" ++ check (runes_of_ascii "packet A {
   match k as n {
-    [""a"", 22, ""c c"", 4, ""e"", 66, ""g"", 8, ""i""] : B
+    [1, ""bb"", 007, ""d"", 5, ""f"", 7, ""h"", 9, ""j"", 11] : B
     2 : C
   },
 }")).
-Eval vm_compute in ("<<<M848>>>" ++ check (runes_of_ascii "packet A {
+Eval vm_compute in ("<<<M3011>>>" ++ check (runes_of_ascii "packet A {
   match k as n {
-    [""a"", ""bb"", 007, ""d"", ""e"", 66, ""g""] : B,
+    [1, 22, 007, 4, 5, 66, 7, 8, 9, 10, 11, 12] : B,
     2 : C
   },
 }")).
-Eval vm_compute in ("<<<M1797>>>" ++ check (runes_of_ascii "packet A {
+Eval vm_compute in ("<<<M4088>>>" ++ check (runes_of_ascii "
+packet
+order_item { 
+u8
+	a  , }
+    root packet
+
+    new_order
+
+{	order_item ,
+	u8  x 
+,}
+")).
+Eval vm_compute in ("<<<M855>>>" ++ check (runes_of_ascii "
+root packet asx
+{ // 50% %s
+} options { body = uint16 uint8x = ' '
+    ; stringy  = 00 ; }
+")).
+Eval vm_compute in ("<<<M2274>>>" ++ check (runes_of_ascii "MetaData _x {string x ~ `// not a comment` , string
+i64_ // trailing space 
+`a\` ,
+    }
+")).
+Eval vm_compute in ("<<<M3883>>>" ++ check (runes_of_ascii "// top
+packet o {
+    // c2
+    @tag(4294967296)
+    options1 @lengthOf(u8x) `" ++ [233]%N ++ runes_of_ascii "`,// c11
+}")).
+Eval vm_compute in ("<<<M2952>>>" ++ check (runes_of_ascii "packet A {
+  match k as n {
+    [""a"", 22, ""c c"", 4, ""e"", 66, ""g""] : B,
+    2 : C
+  },
+}")).
+Eval vm_compute in ("<<<M4129>>>" ++ check (runes_of_ascii "packet A {
     match k as n {
-        [1, ""bb"", 007, ""d""] : B,
+        [""a"", ""bb"", ""c c""] : B,
         2 : C,
     },
 }")).
-Eval vm_compute in ("<<<M1247>>>" ++ check (runes_of_ascii "packet o { @tag( 42 ) repeat x { char[ 0123456789 ] i64_ , } , } options { }
-// c
+Eval vm_compute in ("<<<M1128>>>" ++ check (runes_of_ascii "packet u {charz
+//	t
+// 50% %s
+@calculatedFrom( // a // b
+""a	b""
+)
+    `u8 x,` , }
 ")).
-Eval vm_compute in ("<<<M1230>>>" ++ check (runes_of_ascii "packet o { @tag( 42 ) repeat x { char[ 0123456789 ] // c
-i64_ , } , } options { }")).
-Eval vm_compute in ("<<<M1996>>>" ++ check (runes_of_ascii "MetaData zchar {
-    // c2a
-    // c2b
-    zchar[3] Pad,// c7a
-    // c7b
-}// c8")).
-Eval vm_compute in ("<<<M445>>>" ++ check (runes_of_ascii "options
-{
-matchKey = 42/// triple
-x='0' ;
-// packet A { u8 x, }
-//
-charz
-=")).
-Eval vm_compute in ("<<<M806>>>" ++ check (runes_of_ascii "packet A {
-  match k as n {
-    [""a"", 22, ""c c"", 4] : B
-    2 : C
-  },
+Eval vm_compute in ("<<<M83>>>" ++ check (runes_of_ascii "MetaData
+tag
+    // `tick` ""quote"" 'q'
+    { f32// c
+tag// " ++ [27880; 37322]%N ++ runes_of_ascii "
+`two words`
+,	}
+")).
+Eval vm_compute in ("<<<M3826>>>" ++ check (runes_of_ascii "packet A {
+    match k as n {
+        [1, 22, 007] : B,
+        2 : C,
+    },
 }")).
-Eval vm_compute in ("<<<M1312>>>" ++ check (runes_of_ascii "MetaData _x
+Eval vm_compute in ("<<<M1005>>>" ++ check (runes_of_ascii "MetaData leftPad // " ++ [27880; 37322]%N ++ runes_of_ascii "
+{  char[ 0123456789 ]
+    zchar ,}packet asx
+    { }")).
+Eval vm_compute in ("<<<M3389>>>" ++ check (runes_of_ascii "MetaData _x { f64 charz `tab	here` , } options { BodyLength = """ ++ [233]%N ++ runes_of_ascii "t" ++ [233]%N ++ runes_of_ascii """
 // c
-{ zchar[ 4294967296 ] lengthOf `// not a comment` , }")).
-Eval vm_compute in ("<<<M795>>>" ++ check (runes_of_ascii "packet A {
+; }")).
+Eval vm_compute in ("<<<M2913>>>" ++ check (runes_of_ascii "packet A {
   match k as n {
-    [1, 22, ""c c""] : B
+    [""a"", 22, ""c c"", 4] : B,
     2 : C
   },
 }")).
-Eval vm_compute in ("<<<M782>>>" ++ check (runes_of_ascii "packet A {
+Eval vm_compute in ("<<<M2900>>>" ++ check (runes_of_ascii "packet A {
   match k as n {
-    [1, ""bb""] : B
+    [""a"", 22, ""c c""] : B,
     2 : C
   },
 }")).
-Eval vm_compute in ("<<<M1730>>>" ++ check (runes_of_ascii "packet A {
-    //	t
-    /// triple
-    repeat char[] _x,
-}")).
-Eval vm_compute in ("<<<M776>>>" ++ check (runes_of_ascii "packet A { Inner { match k as n { [1] : B, }, }, }")).
-Eval vm_compute in ("<<<M60>>>" ++ check (runes_of_ascii "root packet u
-    /// triple
+Eval vm_compute in ("<<<M3403>>>" ++ check (runes_of_ascii "packet
+// c
+o { @tag( 4294967296 ) options1 @lengthOf( u8x ) `" ++ [233]%N ++ runes_of_ascii "` , }")).
+Eval vm_compute in ("<<<M1457>>>" ++ check (runes_of_ascii "packet calculatedFrom
+{ @calculatedFrom( ""a\\"" ) zchar[ 4294967296")).
+Eval vm_compute in ("<<<M323>>>" ++ check (runes_of_ascii "
+packet
+    T
+{ repeat
+int16
+As , } options	{T
+    = ' '
+    ;}
+")).
+Eval vm_compute in ("<<<M3817>>>" ++ check (runes_of_ascii "  options
+
     {
+
+charz
+
+= '\x00'
+;
+
+float
+	=
+    ""it's"" }
+
+")).
+Eval vm_compute in ("<<<M2886>>>" ++ check (runes_of_ascii "packet A {
+  match k as n {
+    [1, 22] : B
+    2 : C
+  },
+}")).
+Eval vm_compute in ("<<<M780>>>" ++ check (runes_of_ascii "MetaData o {f32 lengthOf // 50% %s
+`{ , }` , } // 50% %s")).
+Eval vm_compute in ("<<<M4200>>>" ++ check (runes_of_ascii "root packet stringy {
+    repeat char[] zchar `it's`,
+}")).
+Eval vm_compute in ("<<<M4526>>>" ++ check (runes_of_ascii "
+options	{ 
+a =  1 ;}
+options
+
+    {
+	a
+=
+1  ;}
+")).
+Eval vm_compute in ("<<<M2334>>>" ++ check (runes_of_ascii "
+MetaData Pad{
+u32 | rootA `line1
+line2` ,
     }
 ")).
-Eval vm_compute in ("<<<M1641>>>" ++ check (runes_of_ascii "options {
-    a = 1;// a
-    b = 2// b
+Eval vm_compute in ("<<<M3808>>>" ++ check (runes_of_ascii "MetaData M {
+    u8 x `
+    `,
+    T t `
+    `,
 }")).
-Eval vm_compute in ("<<<M1506>>>" ++ check (runes_of_ascii "
-// c
+Eval vm_compute in ("<<<M3814>>>" ++ check (runes_of_ascii "
 
-options
-{
-    u8x
-    = 3	} ")).
-Eval vm_compute in ("<<<M737>>>" ++ check (runes_of_ascii "S`buy#HcxP6RJwc!T3?Vo9C!:o*Kywe")).
-Eval vm_compute in ("<<<M940>>>" ++ check (runes_of_ascii "packet A {
-    u8 x `a
+  options
 
-b`,
+    { a
+
+=	1;	// a
+
+b  =2 // b
 }")).
-Eval vm_compute in ("<<<M1302>>>" ++ check (runes_of_ascii "packet lengthOf { } // c
+Eval vm_compute in ("<<<M359>>>" ++ check (runes_of_ascii "MetaData
+    charz
+    {packetx options1 , }")).
+Eval vm_compute in ("<<<M254>>>" ++ check (runes_of_ascii "MetaData// packet A { u8 x, }
+metadata{ }
 ")).
-Eval vm_compute in ("<<<M319>>>" ++ check (runes_of_ascii "MetaData
-    i64_ { }
+Eval vm_compute in ("<<<M1242>>>" ++ check (runes_of_ascii "
+MetaData // c
+metadata { Foo i64_ ,  }
 ")).
-Eval vm_compute in ("<<<M975>>>" ++ check (runes_of_ascii "packet A {
+Eval vm_compute in ("<<<M2741>>>" ++ check (runes_of_ascii "c8aHsi0_?V2CKt<lZr$1jhkY3.hNQ Q`j,]S93S")).
+Eval vm_compute in ("<<<M3203>>>" ++ check (runes_of_ascii "MetaData M {
+}// c
+MetaData N {
+}// d")).
+Eval vm_compute in ("<<<M1139>>>" ++ check (runes_of_ascii "options{roots  = '0'
+A	= false ;
+}")).
+Eval vm_compute in ("<<<M3218>>>" ++ check (runes_of_ascii "packet A { @tag( // a
+ 1 ) u8 x, }")).
+Eval vm_compute in ("<<<M2585>>>" ++ check (runes_of_ascii "packet A { repeat repeat u8 x, }")).
+Eval vm_compute in ("<<<M3121>>>" ++ check (runes_of_ascii "packet A {
+ u8 x `d" ++ [133]%N ++ runes_of_ascii "`, // c" ++ [133]%N ++ runes_of_ascii "
+}")).
+Eval vm_compute in ("<<<M2605>>>" ++ check (runes_of_ascii "packet A { x @lengthOf(y), }")).
+Eval vm_compute in ("<<<M4271>>>" ++ check (runes_of_ascii "
+packet A  {
 }
-// c ")).
-Eval vm_compute in ("<<<M1056>>>" ++ check (runes_of_ascii "// c" ++ [6158]%N ++ runes_of_ascii "
+    // c" ++ [8239]%N ++ runes_of_ascii "
+")).
+Eval vm_compute in ("<<<M2745>>>" ++ check (runes_of_ascii "mn7aIL.Qr@{m (&T6k@4]YZn&")).
+Eval vm_compute in ("<<<M587>>>" ++ check (runes_of_ascii "root
+packet  u
+    { }
+")).
+Eval vm_compute in ("<<<M2595>>>" ++ check (runes_of_ascii "packet A { x `d` y, }")).
+Eval vm_compute in ("<<<M1274>>>" ++ check (runes_of_ascii "packet options1 { }")).
+Eval vm_compute in ("<<<M3105>>>" ++ check (runes_of_ascii "// c 
 packet A {
 }")).
-Eval vm_compute in ("<<<M126>>>" ++ check (runes_of_ascii "packet	float{ }")).
-Eval vm_compute in ("<<<M1039>>>" ++ check (runes_of_ascii "// c 	")).
-Eval vm_compute in ("<<<M726>>>" ++ check (runes_of_ascii "")).
+Eval vm_compute in ("<<<M3187>>>" ++ check (runes_of_ascii "packet A {
+}// c x")).
+Eval vm_compute in ("<<<M3137>>>" ++ check (runes_of_ascii "packet A {
+}// c" ++ [8232]%N)).
+Eval vm_compute in ("<<<M844>>>" ++ check (runes_of_ascii "options {
+    }")).
+Eval vm_compute in ("<<<M2228>>>" ++ check (runes_of_ascii "MetaData _x {")).
+Eval vm_compute in ("<<<M2715>>>" ++ check (runes_of_ascii "@rightPad ]")).
+Eval vm_compute in ("<<<M2476>>>" ++ check (runes_of_ascii "optionss")).
+Eval vm_compute in ("<<<M2861>>>" ++ check (runes_of_ascii "|un%=}Y")).
+Eval vm_compute in ("<<<M2452>>>" ++ check (runes_of_ascii "char1")).
+Eval vm_compute in ("<<<M3178>>>" ++ check (runes_of_ascii "// c" ++ [65279]%N)).
+Eval vm_compute in ("<<<M4458>>>" ++ check (runes_of_ascii "//	t")).
+Eval vm_compute in ("<<<M2699>>>" ++ check (runes_of_ascii "`d`")).
+Eval vm_compute in ("<<<M2496>>>" ++ check (runes_of_ascii "'")).
